@@ -76,9 +76,9 @@ frozen OGC / RFC 7946 shape); agreement of the three encodings as values; projec
 import itertools
 
 from .. import ordertype as OT
-from ..c17_util import (POS, TOP, abs_cond, address_taken, char_of, decl_of, delta_states, exit_t, is_abort_block, is_this, local_or_param,
-                        loop_header_block, lvalue_key, normal_paths, param_index, path_elems, peel, pn, recv_field, short, string_of,
-                        this_field, writes)
+from ..c17_util import (POS, TOP, Model, ModelAbort, ModelError, ModelThrow, ModelUnknown, Obj, Str, Sym, abs_cond, address_taken, char_of,
+                        decl_of, delta_states, exit_t, is_abort_block, is_this, local_or_param, loop_header_block, lvalue_key, onode, origin,
+                        param_index, peel, pn, recv_field, short, string_of, this_field, writes)
 from ..flow import describe_path, guards_of, path_search
 
 EXPLANATION = (
@@ -173,7 +173,7 @@ def self_call(fn, n):
 
 def proj_call_arg(fn, F, nid):
     """If the peeled expression is this->m_projection(x): the id of x, else None."""
-    n = pn(fn, nid)
+    n = onode(fn, nid)
     if n is not None and n.get('k') == 'call' and n.get('op') == '()' and recv_field(fn, n) == F.proj and len(n.get('args', [])) == 1:
         return n['args'][0]
     return None
@@ -527,51 +527,171 @@ MP_STATE_TEXT = {'S0': 'nothing started', 'M0': 'multipolygon started, no polygo
 
 
 class _Violation(Exception):
-    def __init__(self, msg, nid):
+    def __init__(self, msg, nid, fn=None):
         Exception.__init__(self, msg)
         self.nid = nid
+        self.fn = fn
 
 
-def _explore(fn, init, on_elem, counters_of):
-    """Abstract interpretation of the CFG from the entry block.  State = (protocol state, frozenset((decl, absval)), extra).
-    on_elem(state, node) -> state | None (path dropped by a domain assumption); raises _Violation.
-    Branches whose condition is decided by the abstract counter values are followed exactly."""
-    seen = set()
-    work = [(fn.entry, init)]
-    ends = []
-    while work:
-        b, st = work.pop()
-        if (b, st) in seen:
-            continue
-        seen.add((b, st))
-        blk = fn.blocks[b]
-        dead = False
-        for e in blk['elems']:
-            st = on_elem(st, fn.nodes[e])
-            if st is None:
-                dead = True
-                break
-            if st == 'stop':
-                dead = True
-                break
-        if dead:
-            continue
-        if b == fn.exit:
-            continue
-        succs = blk['succs']
-        if is_abort_block(fn, b):
-            continue
-        if 'cond' in blk and len(succs) == 2 and blk.get('termcls') != 'SwitchStmt':
-            r = abs_cond(fn, blk['cond'], counters_of(st))
-            idxs = [0, 1] if r is None else ([0] if r else [1])
+FILL_V = ('fill',)      # abstract value: the count returned by the fill call of this path
+FIN_V = ('fin',)        # abstract value: the geometry returned by the finish call of this path
+
+
+class Proto:
+    """Interprocedural abstract interpretation of a create_* function over (protocol state) x (abstract values of integer
+    locals: constant / >= 1 / fill result / finish result).  Calls of other GeometryFactory members that are not protocol
+    events themselves (extracted helpers) are explored from the current protocol state with their arguments bound, so
+    moving a part of the function into a helper changes nothing.  Branches whose condition is decided by the abstract
+    values are followed exactly (`num_polygons > 0`, `num_rings == 0`)."""
+
+    def __init__(self, fb, F, cls_t, automaton, classify, on_event=None, drop=None, throw_ok=None, state_text=None):
+        self.fb, self.F, self.cls_t = fb, F, cls_t
+        self.automaton, self.classify = automaton, classify
+        self.on_event = on_event
+        self.drop = drop or (lambda ev, ps: False)
+        self.throw_ok = throw_ok or (lambda ps: True)
+        self.state_text = state_text or (lambda ps: ps)
+        self.memo = {}
+        self.budget = 40000
+
+    # -------------------------------------------------------------- abstract values
+    def value(self, fn, nid, env, cr):
+        x = origin(fn, nid)
+        n = fn.nodes.get(x) if x is not None else None
+        if n is None:
+            return TOP
+        if n['id'] in cr:
+            return cr[n['id']]
+        if n.get('k') == 'var' and n.get('vk') in ('local', 'param'):
+            return env.get(n['d'], TOP)
+        c = fn.const_value(x)
+        if c is not None:
+            return ('c', c)
+        return TOP
+
+    def helper(self, fn, n):
+        """Fn of a GeometryFactory member called on *this that is not itself a protocol event."""
+        if n.get('k') != 'call' or not n.get('q', '').startswith(GF + '::') or n.get('recv') is None or not is_this(fn, n['recv']):
+            return None
+        cands = [g for g in self.fb.by_usr.get(n.get('u'), []) if g.has_cfg and g.clsT == self.cls_t]
+        return cands[0] if cands else None
+
+    # -------------------------------------------------------------- exploration
+    def run(self, fn, ps, args, depth=0, top=False):
+        """-> set of (protocol state at return, abstract return value)"""
+        key = (fn.id, fn.full, ps, tuple(args))
+        if not top and key in self.memo:
+            return self.memo[key]
+        if depth > 4:
+            raise _Violation('helper calls nested too deeply to follow', None, fn)
+        env0 = {p['d']: a for p, a in zip(fn.params, args) if a is not TOP}
+        upd = _counter_updates(fn)
+        outcomes = set()
+        seen = set()
+        work = [(fn.entry, (ps, frozenset(env0.items()), frozenset()))]
+        while work:
+            b, st = work.pop()
+            if (b, st) in seen:
+                continue
+            seen.add((b, st))
+            self.budget -= 1
+            if self.budget < 0:
+                raise _Violation('state space too large', None, fn)
+            blk = fn.blocks[b]
+            states = [st]
+            for e in blk['elems']:
+                nxt = []
+                for s_ in states:
+                    nxt.extend(self.step(fn, s_, fn.nodes[e], upd, depth, top, outcomes))
+                states = nxt
+                if not states:
+                    break
+            if not states:
+                continue
+            if b == fn.exit or is_abort_block(fn, b):
+                continue
+            succs = blk['succs']
+            for s_ in states:
+                if 'cond' in blk and len(succs) == 2 and blk.get('termcls') != 'SwitchStmt':
+                    r = abs_cond(fn, blk['cond'], {d: v for d, v in s_[1] if v is None or v[0] in ('c', 'pos')})
+                    idxs = [0, 1] if r is None else ([0] if r else [1])
+                else:
+                    idxs = range(len(succs))
+                for i in idxs:
+                    if succs[i] is not None:
+                        if succs[i] == fn.exit and not top:
+                            outcomes.add((s_[0], TOP))      # falls off the end of a void helper
+                        work.append((succs[i], s_))
+        if not top:
+            self.memo[key] = outcomes
+        return outcomes
+
+    def step(self, fn, st, n, upd, depth, top, outcomes):
+        ps, env, cr = st
+        envd, crd = dict(env), dict(cr)
+        nid = n['id']
+        k = n.get('k')
+        if k == 'decl':
+            for v in n['vars']:
+                if isinstance(v.get('init'), int):
+                    envd[v['d']] = self.value(fn, v['init'], envd, crd)
+        if nid in upd:
+            d, v = upd[nid]
+            if v == 'inc':
+                envd[d] = POS
+            elif v is not None and v[0] == 'expr':
+                envd[d] = self.value(fn, v[1], envd, crd)
+            else:
+                envd[d] = v
+        ev = self.classify(fn, n)
+        results = None
+        if ev is not None:
+            if ev.startswith('foreign:'):
+                raise _Violation('calls %s, which belongs to another geometry kind' % ev[8:], nid, fn)
+            nxt = self.automaton[ps].get(ev)
+            if nxt is None:
+                if self.drop(ev, ps):
+                    return []
+                raise _Violation('%s while %s' % (ev, self.state_text(ps)), nid, fn)
+            if self.on_event is not None:
+                val = self.on_event(self, fn, n, ev, envd, crd)
+                if val is not None:
+                    crd[nid] = val
+            ps = nxt
         else:
-            idxs = range(len(succs))
-        for i in idxs:
-            if succs[i] is not None:
-                work.append((succs[i], st))
-        if len(seen) > 20000:
-            raise _Violation('state space too large', None)
-    return ends
+            h = self.helper(fn, n) if k == 'call' else None
+            if h is not None:
+                args = [self.value(fn, a, envd, crd) for a in n.get('args', [])]
+                results = self.run(h, ps, args, depth + 1)
+                if not results:
+                    return []       # the helper never returns normally on this path (always throws)
+        if k == 'return':
+            val = self.value(fn, n['sub'], envd, crd) if 'sub' in n else TOP
+            if top:
+                self.at_top_return(fn, n, ps, val)
+            else:
+                outcomes.add((ps, val))
+            return []
+        if k == 'throw':
+            if not n.get('rethrow') and not self.throw_ok(ps):
+                raise _Violation('an exception is thrown while %s: valid input is rejected' % self.state_text(ps), nid, fn)
+            return []
+        if results is not None:
+            out = []
+            for (ps2, val) in results:
+                c2 = dict(crd)
+                if val is not TOP:
+                    c2[nid] = val
+                out.append((ps2, frozenset(envd.items()), frozenset(c2.items())))
+            return out
+        return [(ps, frozenset(envd.items()), frozenset(crd.items()))]
+
+    def at_top_return(self, fn, n, ps, val):
+        if ps != 'END':
+            raise _Violation('return while %s: the geometry was not finished' % self.state_text(ps), n['id'], fn)
+        if val != FIN_V:
+            raise _Violation('the returned value is not the result of the finish call of this path', n['id'], fn)
+        self.reached = True
 
 
 def _geom_error_throw(n):
@@ -655,13 +775,11 @@ def _line_protocol(fb, R, fn, F, kind, q):
     key = q + '#protocol'
     fill_names = {k for k, v in FILLS.items() if v[2] == kind}
     start_n, finish_n, add_n = kind + '_start', kind + '_finish', kind + '_add_location'
-    upd = _counter_updates(fn)
-    locs = _int_locals(fn)
-    decl_at = {nid: (d, v) for d, (nid, v) in locs.items()}
-    fill_ids = set()
 
-    def event(n):
-        nm = impl_call(fn, F, n) or self_call(fn, n)
+    def classify(f, n):
+        if n.get('k') != 'call':
+            return None
+        nm = impl_call(f, F, n) or self_call(f, n)
         if nm is None:
             return None
         if nm == start_n:
@@ -670,131 +788,67 @@ def _line_protocol(fb, R, fn, F, kind, q):
             return 'finish'
         if nm in fill_names or nm == add_n:
             return 'fill'
-        if nm in FILLS or nm.endswith(('_start', '_finish', '_add_location')) or nm.startswith('make_'):
+        if nm in FILLS or (impl_call(f, F, n) and (nm.endswith(('_start', '_finish', '_add_location')) or nm.startswith('make_'))):
             return 'foreign:' + nm
         return None
 
-    def absval(fn_, rhs):
-        x = pn(fn_, rhs)
-        if x is not None and x['id'] in fill_ids:
-            return ('fill', x['id'])
-        return TOP
-
-    def on_elem(st, n):
-        ps, env, last_finish = st
-        envd = dict(env)
-        nid = n['id']
-        if nid in decl_at:
-            d, v = decl_at[nid]
-            envd[d] = v if v is None or v[0] == 'c' else absval(fn, v[1])
-        if nid in upd:
-            d, v = upd[nid]
-            if v == 'inc':
-                envd[d] = POS
-            elif v is not None and v[0] == 'expr':
-                envd[d] = absval(fn, v[1])
-            else:
-                envd[d] = v
-        ev = event(n)
-        if ev is not None:
-            if ev.startswith('foreign:'):
-                raise _Violation('%s calls %s, which belongs to another geometry kind' % (q, ev[8:]), nid)
-            nxt = LINE_AUTOMATON[ps].get(ev)
-            if nxt is None:
-                raise _Violation('%s_%s in protocol state %s (required order: %s_start, one fill, %s_finish)'
-                                 % (kind, ev, ps, kind, kind), nid)
-            if ev == 'fill':
-                fill_ids.add(nid)
-            if ev == 'finish':
-                a = n.get('args', [])
-                d = local_or_param(fn, a[0]) if len(a) == 1 else None
-                v = envd.get(d) if d is not None else (('fill', peel(fn, a[0])) if a and peel(fn, a[0]) in fill_ids else None)
-                if not (v is not None and v[0] == 'fill'):
-                    raise _Violation('the count passed to %s_finish is not the value returned by the fill call of this path '
-                                     '(it is %s)' % (kind, fn.expr(a[0]) if a else 'missing'), nid)
-                last_finish = nid
-            ps = nxt
-        if n.get('k') == 'return':
-            if ps != 'END':
-                raise _Violation('return in protocol state %s: the geometry was not finished' % ps, nid)
-            if peel(fn, n.get('sub')) != last_finish:
-                raise _Violation('the returned value is not the result of %s_finish' % kind, nid)
-            return 'stop'
-        if n.get('k') == 'throw':
-            return 'stop'
-        return (ps, frozenset(envd.items()), last_finish)
-
-    # fill calls must be known before values are classified: pre-pass
-    for n in fn.all_nodes():
-        if event(n) == 'fill':
-            fill_ids.add(n['id'])
+    def on_event(P, f, n, ev, env, cr):
+        if ev == 'fill':
+            return FILL_V
+        if ev == 'finish':
+            a = n.get('args', [])
+            v = P.value(f, a[0], env, cr) if len(a) == 1 else TOP
+            if v != FILL_V:
+                raise _Violation('the count passed to %s_finish is not the value returned by the fill call of this path (it is %s)'
+                                 % (kind, f.expr(a[0]) if a else 'missing'), n['id'], f)
+            return FIN_V
+        return None
+    P = Proto(fb, F, fn.clsT, LINE_AUTOMATON, classify, on_event,
+              state_text=lambda ps: {'S0': 'nothing has been started', 'A0': '%s_start was called but no points were added' % kind,
+                                     'A1': 'the points were added (required order: %s_start, one fill, %s_finish)' % (kind, kind),
+                                     'END': 'the %s is already finished' % kind}[ps])
+    P.reached = False
     try:
-        _explore(fn, ('S0', frozenset(), None), on_elem, lambda st: {d: v for d, v in st[1] if v is None or v[0] in ('c', 'pos')})
-        rets = [n for n in fn.all_nodes() if n.get('k') == 'return']
-        R.check(bool(rets), 'T1-create-protocol', key, fn.site, 'no return statement')
+        P.run(fn, 'S0', [TOP] * len(fn.params), top=True)
+        R.check(P.reached, 'T1-create-protocol', key, fn.site, 'no path returns a finished %s' % kind)
     except _Violation as v:
-        R.bad('T1-create-protocol', key, fn.loc(v.nid) if v.nid is not None else fn.site, str(v))
+        g = v.fn or fn
+        R.bad('T1-create-protocol', key, g.loc(v.nid) if v.nid is not None else g.site, '%s: %s' % (short(g.q), v))
 
 
 def _mp_protocol(fb, R, fn, F, q):
     key = q + '#protocol'
-    upd = _counter_updates(fn)
-    locs = _int_locals(fn)
-    decl_at = {nid: (d, v) for d, (nid, v) in locs.items()}
-    reached_end = []
 
-    def event(n):
-        nm = impl_call(fn, F, n)
+    def classify(f, n):
+        if n.get('k') != 'call':
+            return None
+        nm = impl_call(f, F, n)
         if nm is not None:
             return 'add' if nm == 'multipolygon_add_location' else nm
-        nm = self_call(fn, n)
+        nm = self_call(f, n)
         if nm == 'add_points':
             return 'add'
         if nm in FILLS:
-            return nm
+            return 'foreign:' + nm
         return None
 
-    def on_elem(st, n):
-        ps, env, last_finish = st
-        envd = dict(env)
-        nid = n['id']
-        if nid in decl_at:
-            d, v = decl_at[nid]
-            envd[d] = v if (v is None or v[0] == 'c') else TOP
-        if nid in upd:
-            d, v = upd[nid]
-            envd[d] = POS if v == 'inc' else (v if (v is None or v[0] == 'c') else TOP)
-        ev = event(n)
-        if ev is not None:
-            nxt = MP_AUTOMATON[ps].get(ev)
-            if nxt is None:
-                if ev == 'multipolygon_inner_ring_start' and ps == 'M0':
-                    return None     # ASSUMPTION: an inner ring never precedes the first outer ring of an area
-                raise _Violation('%s while %s (required: multipolygon_start, then per outer ring polygon_start, outer_ring_start, points, '
-                                 'outer_ring_finish, per inner ring inner_ring_start, points, inner_ring_finish, then polygon_finish before the '
-                                 'next polygon_start and before multipolygon_finish)' % (ev, MP_STATE_TEXT[ps]), nid)
-            if ev == 'multipolygon_finish':
-                last_finish = nid
-            ps = nxt
-        if n.get('k') == 'return':
-            if ps != 'END':
-                raise _Violation('return while %s' % MP_STATE_TEXT[ps], nid)
-            if peel(fn, n.get('sub')) != last_finish:
-                raise _Violation('the returned value is not the result of multipolygon_finish', nid)
-            reached_end.append(nid)
-            return 'stop'
-        if n.get('k') == 'throw':
-            if not n.get('rethrow') and ps not in MP_NO_RING_STATES:
-                raise _Violation('an exception is thrown while %s: an area that has rings is rejected' % MP_STATE_TEXT[ps], nid)
-            return 'stop'
-        return (ps, frozenset(envd.items()), last_finish)
-
+    def on_event(P, f, n, ev, env, cr):
+        return FIN_V if ev == 'multipolygon_finish' else None
+    P = Proto(fb, F, fn.clsT, MP_AUTOMATON, classify, on_event,
+              # ASSUMPTION: an inner ring never precedes the first outer ring of an area
+              drop=lambda ev, ps: ev == 'multipolygon_inner_ring_start' and ps == 'M0',
+              throw_ok=lambda ps: ps in MP_NO_RING_STATES,
+              state_text=lambda ps: MP_STATE_TEXT[ps] + ' (required: multipolygon_start, then per outer ring polygon_start, outer_ring_start, '
+              'points, outer_ring_finish, per inner ring inner_ring_start, points, inner_ring_finish, then polygon_finish before the next '
+              'polygon_start and before multipolygon_finish)')
+    P.reached = False
     try:
-        _explore(fn, ('S0', frozenset(), None), on_elem, lambda st: {d: v for d, v in st[1] if v is None or v[0] in ('c', 'pos')})
-        R.check(bool(reached_end), 'T1-create-protocol', key, fn.site,
+        P.run(fn, 'S0', [TOP] * len(fn.params), top=True)
+        R.check(P.reached, 'T1-create-protocol', key, fn.site,
                 'no path reaches `return multipolygon_finish()` in the finished state: every area would be rejected')
     except _Violation as v:
-        R.bad('T1-create-protocol', key, fn.loc(v.nid) if v.nid is not None else fn.site, str(v))
+        g = v.fn or fn
+        R.bad('T1-create-protocol', key, g.loc(v.nid) if v.nid is not None else g.site, '%s: %s' % (short(g.q), v))
 
 
 # ================================================================================================ dispatch table
@@ -860,37 +914,81 @@ def dispatch_rules(fb, R):
     if not un_names or not dir_names or set(un_names.values()) != {'unique', 'all'} or set(dir_names.values()) != {'forward', 'backward'}:
         R.broken('enums osmium::geom::use_nodes {unique, all} / direction {forward, backward} not found')
         return
+    class _Broken(Exception):
+        pass
+
+    def roles(f):
+        """(list param, use_nodes param, direction param) decl ids of a function, by parameter type."""
+        pl = [p['d'] for p in f.params if 'NodeRefList' in p['tC'] or 'WayNodeList' in p['tC']]
+        pu = [p['d'] for p in f.params if 'use_nodes' in p['tC']]
+        pd = [p['d'] for p in f.params if p['tC'].replace('const ', '').strip().endswith('direction')]
+        if len(pl) > 1 or len(pu) > 1 or len(pd) > 1:
+            raise _Broken('%s: ambiguous parameter roles' % f.full)
+        return (pl[0] if pl else None, pu[0] if pu else None, pd[0] if pd else None)
+
+    def collect(f, kind, us0, ds0, depth, out):
+        """fill call sites reachable from f (through helpers), each with the set of (use_nodes, direction) values it runs under."""
+        pl, pu, pd = roles(f)
+        for n in f.all_nodes():
+            if n.get('k') != 'call':
+                continue
+            nm = self_call(f, n)
+            if nm is None:
+                continue
+            is_fill = nm in FILLS and FILLS[nm][2] == kind
+            h = None
+            if not is_fill:
+                if nm in FILLS or nm.startswith('create_') or nm.endswith(('_start', '_finish')):
+                    continue
+                cands = [g for g in fb.by_usr.get(n.get('u'), []) if g.has_cfg and g.clsT == f.clsT]
+                h = cands[0] if cands else None
+                if h is None:
+                    continue
+            cons = _constraints(f, n['id'], {d for d in (pu, pd) if d is not None})
+            if cons is None:
+                raise _Broken('%s: guard shape of the call to %s not understood' % (f.full, nm))
+
+            def vals(d, names, base):
+                poss = {k for k, v in names.items() if v in base}
+                for (op, v) in cons.get(d, []) if d is not None else []:
+                    poss = {x for x in poss if (x == v) == (op == 'eq')}
+                return {names[x] for x in poss}
+            us, ds = vals(pu, un_names, us0), vals(pd, dir_names, ds0)
+            if is_fill:
+                out.append((f, n, nm, us, ds, pl))
+                continue
+            if depth >= 3:
+                raise _Broken('%s: helper calls nested too deeply' % f.full)
+            # options / list handed to the helper must be the caller's own, unchanged
+            hl, hu, hd = roles(h)
+            for (hp, mine, what) in ((hl, pl, 'list'), (hu, pu, 'use_nodes'), (hd, pd, 'direction')):
+                if hp is None:
+                    continue
+                i = param_index(h, hp)
+                a = n.get('args', [])
+                if i is None or i >= len(a) or mine is None or local_or_param(f, a[i]) != mine:
+                    raise _Broken('%s: helper %s does not receive the %s parameter unchanged' % (f.full, nm, what))
+            collect(h, kind, us if hu is not None or pu is not None else us0, ds if hd is not None or pd is not None else ds0, depth + 1, out)
+
     for kind in ('linestring', 'polygon'):
         name = 'create_' + kind
         q = GF + '::' + name
         fns = [f for f in gf_methods(fb, name) if f.params and f.params[0]['tC'].endswith('WayNodeList &')]
         for fn in fns:
-            if len(fn.params) != 3:
-                R.broken('%s: expected (list, use_nodes, direction) parameters' % fn.full)
-                continue
-            pl, pu, pd = fn.params[0]['d'], fn.params[1]['d'], fn.params[2]['d']
-            if 'use_nodes' not in fn.params[1]['tC'] or 'direction' not in fn.params[2]['tC']:
-                R.broken('%s: parameter types are not (use_nodes, direction)' % fn.full)
+            try:
+                pl0, pu0, pd0 = roles(fn)
+                if pl0 is None or pu0 is None or pd0 is None:
+                    raise _Broken('%s: expected (list, use_nodes, direction) parameters' % fn.full)
+                sites_all = []
+                collect(fn, kind, {'unique', 'all'}, {'forward', 'backward'}, 0, sites_all)
+            except _Broken as e:
+                R.broken(str(e))
                 continue
             found = {}
-            for n in fn.all_nodes():
-                nm = self_call(fn, n)
-                if nm not in FILLS or FILLS[nm][2] != kind:
-                    continue
-                cons = _constraints(fn, n['id'], {pu, pd})
-                if cons is None:
-                    R.broken('%s: guard shape of the call to %s not understood' % (fn.full, nm))
-                    continue
-
-                def vals(d, names):
-                    poss = set(names)
-                    for (op, v) in cons.get(d, []):
-                        poss = {x for x in poss if (x == v) == (op == 'eq')}
-                    return {names[x] for x in poss}
-                us, ds = vals(pu, un_names), vals(pd, dir_names)
+            for (f, n, nm, us, ds, pl) in sites_all:
                 for u in us:
                     for dr in ds:
-                        found.setdefault((u, dr), []).append((n, nm, len(us) * len(ds)))
+                        found.setdefault((u, dr), []).append((f, n, nm, pl))
             for u in ('unique', 'all'):
                 for dr in ('forward', 'backward'):
                     key = '%s#%s/%s' % (q, u, dr)
@@ -899,34 +997,34 @@ def dispatch_rules(fb, R):
                         R.bad('D1-direction-and-uniqueness-dispatch', key, fn.site,
                               'no fill call is reached for use_nodes::%s, direction::%s: such a request produces no points' % (u, dr))
                         continue
-                    for (n, nm, width) in sites:
+                    for (f, n, nm, pl) in sites:
                         msg = None
                         if FILLS[nm][0] != (u == 'unique'):
                             msg = 'use_nodes::%s reaches %s' % (u, nm)
                         a = n.get('args', [])
                         its = []
                         for x in a:
-                            c = pn(fn, x)
+                            c = onode(f, x)
                             # reverse iterators are wrapped in a converting construction
                             hops = 0
                             while c is not None and c.get('k') == 'construct' and len(c.get('args', [])) == 1 and hops < 3:
-                                c = pn(fn, c['args'][0])
+                                c = onode(f, c['args'][0])
                                 hops += 1
                             if c is None or c.get('k') != 'call' or short(c.get('q', '')) not in _BEGIN or c.get('recv') is None:
                                 its.append(None)
                             else:
-                                its.append((short(c['q']), local_or_param(fn, c['recv'])))
+                                its.append((short(c['q']), local_or_param(f, c['recv'])))
                         if msg is None and (len(its) != 2 or None in its):
                             msg = 'arguments of %s are not begin/end iterators of the list' % nm
                         if msg is None:
                             (n0, r0), (n1, r1) = its
-                            if r0 != pl or r1 != pl:
-                                msg = 'iterators are not taken from the list parameter %s' % fn.params[0]['name']
+                            if pl is None or r0 != pl or r1 != pl:
+                                msg = 'iterators are not taken from the list parameter'
                             elif _BEGIN[n0][0] != dr or _BEGIN[n1][0] != dr:
                                 msg = 'direction::%s reaches %s(%s(), %s())' % (dr, nm, n0, n1)
                             elif _BEGIN[n0][1] != 0 or _BEGIN[n1][1] != 1:
                                 msg = 'iterator pair (%s(), %s()) is not (begin, end)' % (n0, n1)
-                        R.check(msg is None, 'D1-direction-and-uniqueness-dispatch', key, fn.loc(n['id']), msg or '',
+                        R.check(msg is None, 'D1-direction-and-uniqueness-dispatch', key, f.loc(n['id']), msg or '',
                                 detail='%s(%s)' % (nm, ', '.join('%s()' % i[0] for i in its if i)))
     # D2
     for (name, inner) in (('crbegin', 'cend'), ('crend', 'cbegin')):
@@ -1033,22 +1131,24 @@ def threshold_rules(fb, R):
         if not F.ok:
             continue
         fins = [n for n in fn.all_nodes() if impl_call(fn, F, n) == 'multipolygon_finish']
-        ring_starts = [n for n in fn.all_nodes() if (impl_call(fn, F, n) or '').endswith('_ring_start')]
-        # the ring counter: a local incremented on every path after each ring start and nowhere else
-        cands = {}
+        # the counter the rejection is based on: an integer local that starts at 0 and is only ever incremented, tested on the way to a
+        # geometry_error throw.  (That it counts rings -- no throw once a ring was emitted, no finish without one -- is T1's part.)
+        incs = {}
         for (n, lk, kind, _rhs) in writes(fn):
-            if lk[0] == 'var' and kind == 'inc':
-                cands.setdefault(lk[1], []).append(n)
+            if lk[0] == 'var':
+                incs.setdefault(lk[1], []).append(kind)
         counter = None
-        for d, incs in cands.items():
-            ids = {n['id'] for n in incs}
-            if ring_starts and all(any(fn.elem_dominates(rs['id'], i) and fn.positions()[rs['id']][0] == fn.positions()[i][0] for i in ids) for rs in ring_starts) \
-                    and len(incs) == len(ring_starts):
-                counter = d
+        for t in [n for n in fn.all_nodes() if _geom_error_throw(n)]:
+            for (c, s_, b_) in guards_of(fn, t['id']):
+                for x in fn.subtree(c):
+                    d = local_or_param(fn, x) if fn.nodes[x].get('k') == 'var' else None
+                    dn, dv = decl_of(fn, d) if d is not None else (None, None)
+                    if dv is not None and isinstance(dv.get('init'), int) and fn.const_value(dv['init']) == 0 and incs.get(d) \
+                            and all(k_ == 'inc' for k_ in incs[d]):
+                        counter = d
         if counter is None or not fins:
             R.bad('G1-degenerate-threshold', key, fn.site,
-                  'create_multipolygon has no local that counts exactly the rings (incremented once with every *_ring_start): the "no rings" '
-                  'rejection cannot be exact')
+                  'create_multipolygon does not reject an area without rings: no geometry_error is thrown under a test of a ring counter')
             continue
         for f in fins:
             _threshold_guard(fb, R, fn, f['id'], counter, 1, 'G1-degenerate-threshold', key, 'an area without rings is invalid')
@@ -1156,613 +1256,30 @@ def accessor_rules(fb, R):
             R.check(ok, 'P1-checked-accessors', key, fn.site, '%s: %s' % (q, msg))
 
 
-# ================================================================================================ WKB back end
+# ================================================================================================ back ends: abstract runs
+#
+# The three back ends are checked by COMPOSING their methods over protocol sequences in the model interpreter of
+# c17_util (abstract strings / symbolic coordinates; helper calls are interpreted, so extracting a helper, naming a
+# sub-expression, early return vs ?: do not matter) and decoding the result with an independent reference decoder.
 
 WKB = 'osmium::geom::detail::WKBFactoryImpl'
 WKT = 'osmium::geom::detail::WKTFactoryImpl'
 GEOJSON = 'osmium::geom::detail::GeoJSONFactoryImpl'
-STR_PUSH = 'osmium::geom::detail::str_push'
 BS = 'std::basic_string::'
-# level, start, finish, child events that each count one element of the level
-LEVELS = [
-    ('linestring', 'linestring_start', 'linestring_finish', ['linestring_add_location']),
-    ('polygon', 'polygon_start', 'polygon_finish', ['polygon_add_location']),
-    ('multipolygon', 'multipolygon_start', 'multipolygon_finish', ['multipolygon_polygon_start']),
-    ('multipolygon_polygon', 'multipolygon_polygon_start', 'multipolygon_polygon_finish',
-     ['multipolygon_outer_ring_start', 'multipolygon_inner_ring_start']),
-    ('multipolygon_outer_ring', 'multipolygon_outer_ring_start', 'multipolygon_outer_ring_finish', ['multipolygon_add_location']),
-    ('multipolygon_inner_ring', 'multipolygon_inner_ring_start', 'multipolygon_inner_ring_finish', ['multipolygon_add_location']),
-]
-NESTED = ['multipolygon', 'multipolygon_polygon', 'multipolygon_outer_ring', 'multipolygon_inner_ring']
-OGC_TYPES = {'wkbPoint': 1, 'wkbLineString': 2, 'wkbPolygon': 3, 'wkbMultiPoint': 4, 'wkbMultiLineString': 5, 'wkbMultiPolygon': 6,
-             'wkbGeometryCollection': 7, 'wkbSRID': 0x20000000}
-WKB_HEADER_USERS = {'make_point': ('wkbPoint', 0), 'linestring_start': ('wkbLineString', 1), 'polygon_start': ('wkbPolygon', 1),
-                    'multipolygon_start': ('wkbMultiPolygon', 1), 'multipolygon_polygon_start': ('wkbPolygon', 1)}
-
-
-def _method(fb, cls, name):
-    fns = [f for f in fb.fns('%s::%s' % (cls, name)) if f.has_cfg]
-    return fns[0] if fns else None
-
-
-def _buffer_field(fb, cls):
-    """The std::string member the back end accumulates into: the one linestring_add_location appends to."""
-    fn = _method(fb, cls, 'linestring_add_location')
-    if fn is None:
-        return None
-    cands = set()
-    for n in fn.all_nodes():
-        if n.get('k') != 'call':
-            continue
-        f = recv_field(fn, n)
-        if f is not None and n.get('q', '').startswith(BS):
-            cands.add(f)
-        for a in n.get('args', []):
-            f = this_field(fn, a)
-            if f is not None and (fn.nodes.get(peel(fn, a), {}).get('t') or '').startswith(('std::string', 'std::basic_string')):
-                cands.add(f)
-    return cands.pop() if len(cands) == 1 else None
-
-
-def _single_path_elems(fn):
-    ps = normal_paths(fn)
-    if not ps or len(ps) != 1:
-        return None
-    return path_elems(fn, ps[0])
-
-
-def _is_u32_zero_push(fn, n, data):
-    return n.get('k') == 'call' and n.get('q') == STR_PUSH and len(n.get('args', [])) == 2 and this_field(fn, n['args'][0]) == data \
-        and (fn.nodes.get(peel(fn, n['args'][1]), {}).get('t') in ('unsigned int', 'uint32_t')) and fn.const_value(n['args'][1]) == 0 \
-        and (pn(fn, n['args'][1], explicit_noop=False) or {}).get('k') in ('cast', 'lit')
-
-
-def _header_call(fn, nid):
-    n = pn(fn, nid)
-    if n is not None and n.get('k') == 'call' and n.get('q') == WKB + '::header':
-        return n
-    return None
-
-
-def _start_captures(fn, data):
-    """offset members recorded by a start method: [(field, how, node)] ; how = 'header' | 'size+zero'."""
-    elems = _single_path_elems(fn)
-    if elems is None:
-        return None
-    caps = []
-    for i, e in enumerate(elems):
-        n = fn.nodes[e]
-        if n.get('k') != 'assign' or n.get('op') != '=':
-            continue
-        f = this_field(fn, n['lhs'])
-        if f is None:
-            continue
-        h = _header_call(fn, n['rhs'])
-        if h is not None and len(h.get('args', [])) == 3 and this_field(fn, h['args'][0]) == data and fn.const_value(h['args'][2]) == 1:
-            caps.append((f, 'header', n))
-            continue
-        r = pn(fn, n['rhs'])
-        if r is not None and r.get('k') == 'call' and r.get('q') == BS + 'size' and recv_field(fn, r) == data:
-            # next mutation of the buffer must be the 4-byte zero placeholder
-            nxt = None
-            for e2 in elems[i + 1:]:
-                m = fn.nodes[e2]
-                if m.get('k') == 'call' and (m.get('q') == STR_PUSH or m.get('q') == WKB + '::header' or
-                                             (m.get('q', '').startswith(BS) and recv_field(fn, m) == data and short(m['q']) not in ('size', 'empty', 'length'))):
-                    nxt = m
-                    break
-            if nxt is not None and _is_u32_zero_push(fn, nxt, data):
-                caps.append((f, 'size+zero', n))
-            else:
-                caps.append((f, 'size-without-placeholder', n))
-    return caps
-
-
-def _set_size_calls(fn):
-    return [n for n in fn.all_nodes() if n.get('k') == 'call' and n.get('q') == WKB + '::set_size']
-
-
-def wkb_rules(fb, R):
-    rec = fb.record(WKB)
-    if rec is None:
-        R.broken('record %s not found' % WKB)
-        return
-    data = _buffer_field(fb, WKB)
-    if data is None:
-        R.broken('%s: cannot identify the accumulation buffer member' % WKB)
-        return
-    methods = {f.name: f for f in fb.functions if f.cls == WKB and f.has_cfg and not f.is_lambda}
-    field_writers = {}
-    for mname, fn in methods.items():
-        if fn.kind in ('ctor', 'dtor'):
-            continue
-        for (n, key, kind, rhs) in writes(fn):
-            if key[0] == 'field':
-                field_writers.setdefault(key[1], []).append((mname, n, kind, rhs))
-    offsets, counters = {}, {}
-    for (level, sname, fname, children) in LEVELS:
-        k1 = '%s#%s' % (WKB, level)
-        S, Fn_ = methods.get(sname), methods.get(fname)
-        if S is None or Fn_ is None:
-            R.bad('B1-backpatch-offset-pairing', k1, '%s:%d' % (rec.file, rec.line), 'methods %s / %s not found' % (sname, fname))
-            continue
-        caps = _start_captures(S, data)
-        if caps is None:
-            R.broken('%s::%s: not a straight-line body' % (WKB, sname))
-            continue
-        good = [c for c in caps if c[1] in ('header', 'size+zero')]
-        calls = _set_size_calls(Fn_)
-        ids = {c['id'] for c in calls}
-        msg = None
-        if len(caps) != len(good):
-            msg = '%s stores %s.size() in %s but the next thing appended is not the 4-byte zero count placeholder' % (sname, data, [c[0] for c in caps if c not in good])
-        elif len(good) != 1:
-            msg = '%s must record the position of exactly one count placeholder in a member (found %s)' % (sname, [c[0] for c in good])
-        elif len(calls) != 1:
-            msg = '%s must call set_size exactly once (found %d calls): the count written by %s is never / repeatedly patched' % (fname, len(calls), sname)
-        else:
-            w = path_search(Fn_, Fn_.entry, exit_t, lambda e: e in ids, from_block_start=True)
-            a = calls[0].get('args', [])
-            of = this_field(Fn_, a[0]) if len(a) == 2 else None
-            if w is not None:
-                msg = '%s can return without calling set_size: %s' % (fname, describe_path(Fn_, w))
-            elif of != good[0][0]:
-                msg = ('%s patches the count at %s but %s recorded the placeholder position in %s: the count of another element is '
-                       'overwritten and this one stays 0' % (fname, of or Fn_.expr(a[0]) if a else '?', sname, good[0][0]))
-            else:
-                offsets[level] = of
-        R.check(msg is None, 'B1-backpatch-offset-pairing', k1, Fn_.loc(calls[0]['id']) if calls else Fn_.site, msg or '',
-                detail='%s: %s <- %s ; %s: set_size(%s, ...)' % (sname, good[0][0] if good else '?', good[0][1] if good else '?', fname, offsets.get(level)))
-        if len(calls) != 1 or len(calls[0].get('args', [])) != 2:
-            continue
-        # ---- B2 counter
-        cnt = calls[0]['args'][1]
-        cd = local_or_param(Fn_, cnt)
-        cf = this_field(Fn_, cnt)
-        msg = None
-        if cd is not None:
-            if param_index(Fn_, cd) != 0 or len(Fn_.params) != 1:
-                msg = '%s passes local %s as the count, not its parameter' % (fname, Fn_.expr(cnt))
-            elif any(w_[1] == ('var', cd) for w_ in writes(Fn_)):
-                msg = '%s modifies its count parameter before patching' % fname
-        elif cf is not None:
-            counters[level] = cf
-            resets = [w_ for w_ in field_writers.get(cf, []) if w_[0] == sname]
-            if not (len(resets) == 1 and resets[0][2] == 'assign' and S.const_value(resets[0][3]) == 0):
-                msg = '%s must reset the element counter %s to 0 (exactly once)' % (sname, cf)
-            for ch in children:
-                C = methods.get(ch)
-                if msg is not None:
-                    break
-                if C is None:
-                    msg = 'child event %s not found' % ch
-                    break
-                incs = [w_ for w_ in field_writers.get(cf, []) if w_[0] == ch]
-                if not (len(incs) == 1 and (incs[0][2] == 'inc' or (incs[0][2] == 'compound' and incs[0][1].get('op') == '+=' and C.const_value(incs[0][3]) == 1))):
-                    msg = '%s must increment %s exactly once (it is the count that %s writes into the %s header)' % (ch, cf, fname, level)
-                else:
-                    iid = incs[0][1]['id']
-                    w = path_search(C, C.entry, exit_t, lambda e: e == iid, from_block_start=True)
-                    if w is not None:
-                        msg = '%s can return without incrementing %s' % (ch, cf)
-            if msg is None:
-                allowed = set()
-                for (lv, s2, f2, ch2) in LEVELS:
-                    c2 = _set_size_calls(methods[f2]) if f2 in methods else []
-                    if len(c2) == 1 and len(c2[0].get('args', [])) == 2 and this_field(methods[f2], c2[0]['args'][1]) == cf:
-                        allowed |= {s2} | set(ch2)
-                others = sorted({w_[0] for w_ in field_writers.get(cf, [])} - allowed)
-                if others:
-                    msg = 'element counter %s is also written by %s' % (cf, others)
-        else:
-            msg = 'the count passed to set_size in %s is neither the parameter nor a member: %s' % (fname, Fn_.expr(cnt))
-        R.check(msg is None, 'B2-backpatch-counter', k1, Fn_.loc(calls[0]['id']), msg or '',
-                detail='count = %s' % Fn_.expr(cnt))
-    # ---- B3 nested slots
-    offs = [(lv, offsets[lv]) for lv in NESTED if lv in offsets]
-    clash = [(a, b) for (a, b) in itertools.combinations(offs, 2) if a[1] == b[1] and not {a[0], b[0]} == {'multipolygon_outer_ring', 'multipolygon_inner_ring'}]
-    R.check(not clash and len(offs) == 4, 'B3-nested-slots-distinct', WKB + '#nested-offsets', '%s:%d' % (rec.file, rec.line),
-            'levels that are open at the same time share an offset member (the inner start overwrites the outer position): %s' % clash
-            if clash else 'offset members of the nested levels could not all be determined')
-    cnts = [(lv, counters[lv]) for lv in NESTED if lv in counters]
-    clash = [(a, b) for (a, b) in itertools.combinations(cnts, 2) if a[1] == b[1] and not {a[0], b[0]} == {'multipolygon_outer_ring', 'multipolygon_inner_ring'}]
-    R.check(not clash and len(cnts) == 4, 'B3-nested-slots-distinct', WKB + '#nested-counters', '%s:%d' % (rec.file, rec.line),
-            'levels that are open at the same time share a counter member: %s' % clash if clash else 'counter members of the nested levels could not all be determined')
-
-    _wkb_set_size(fb, R, methods, data)
-    _wkb_header(fb, R, methods, data)
-    _wkb_axis(fb, R, methods, data)
-    _wkb_handover(fb, R, methods, data)
-
-
-def _decide_guard(fb, R, fn, target, sym_decl, dom, want, rule, key, what, extra=()):
-    """`target` executes exactly in the worlds where want(world) holds; the guards may mention only the symbol `n` (sym_decl)."""
-    rel = [(c, s, b) for (c, s, b) in guards_of(fn, target) if fn.blocks[b].get('cond') == c
-           and any(local_or_param(fn, x) == sym_decl for x in fn.subtree(c) if fn.nodes[x].get('k') == 'var')]
-
-    def atoms(f, n):
-        if n.get('k') == 'var' and n.get('d') == sym_decl:
-            return ('n', dom)
-        return None
-    try:
-        progs = [(OT.compile_expression(fb, fn, c, atoms), s) for (c, s, _b) in rel]
-    except OT.Inexact as e:
-        R.broken('%s: guard of %s is not comparison-only: %s' % (fn.full, fn.expr(target)[:40], e))
-        return None
-    consts = {0} | set(extra)
-    for p, _s in progs:
-        consts |= set(p.consts)
-    for c in list(consts):
-        consts |= {c - 1, c + 1} if dom[0] <= c - 1 and c + 1 <= dom[1] else set()
-    bad = None
-    nw = 0
-    for w in OT.worlds({'n': dom}, consts):
-        nw += 1
-        reach = all(OT.run(p, w).as_bool() == bool(s) for (p, s) in progs)
-        if reach != bool(want(w)) and bad is None:
-            bad = (w, reach)
-    R.check(bad is None, rule, key, fn.loc(rel[0][0]) if rel else fn.loc(target),
-            '%s: for %s the guarded operation is %s' % (what, bad[0].witness() if bad else '', 'executed' if bad and bad[1] else 'not executed'),
-            detail='guards %s decided over %d order types' % ([fn.expr(c) for (c, _s, _b) in rel], nw))
-    return rel
-
-
-def _wkb_set_size(fb, R, methods, data):
-    fn = methods.get('set_size')
-    key = WKB + '::set_size'
-    if fn is None or len(fn.params) != 2:
-        R.bad('B4-set_size-patches-uint32', key + '#patch', WKB, 'set_size(offset, size) not found')
-        return
-    po, ps = fn.params[0]['d'], fn.params[1]['d']
-    copies = [n for n in fn.all_nodes() if n.get('k') == 'call' and n.get('q') in ('std::copy_n', 'std::memcpy', 'memcpy', 'std::copy')]
-    msg = None
-    if len(copies) != 1 or copies[0]['q'] != 'std::copy_n' or len(copies[0].get('args', [])) != 3:
-        msg = 'expected exactly one std::copy_n(src, n, dst)'
-    else:
-        src, cnt, dst = copies[0]['args']
-        d = pn(fn, dst)
-        okd = d is not None and d.get('k') == 'unop' and d.get('op') == '&'
-        if okd:
-            ix = pn(fn, d['sub'])
-            okd = ix is not None and ix.get('k') == 'call' and ix.get('q') == BS + 'operator[]' and recv_field(fn, ix) == data \
-                and len(ix.get('args', [])) == 1 and local_or_param(fn, ix['args'][0]) == po
-        s = pn(fn, src, explicit_noop=True)
-        while s is not None and s.get('k') == 'cast':
-            s = pn(fn, s['sub'], explicit_noop=True)
-        oks = s is not None and s.get('k') == 'unop' and s.get('op') == '&'
-        if oks:
-            sd = local_or_param(fn, s['sub'])
-            dn, dv = decl_of(fn, sd) if sd is not None else (None, None)
-            oks = dv is not None and dv['tC'].replace('const ', '') == 'unsigned int' and not [w for w in writes(fn) if w[1] == ('var', sd)]
-            if oks:
-                i = pn(fn, dv.get('init'), explicit_noop=False)
-                oks = i is not None and i.get('k') == 'cast' and local_or_param(fn, i['sub']) == ps
-        if fn.const_value(cnt) != 4:
-            msg = 'the number of bytes patched is %s, the count field is a 4 byte uint32' % fn.const_value(cnt)
-        elif not okd:
-            msg = 'the destination is not &%s[offset]' % data
-        elif not oks:
-            msg = 'the source is not the address of a uint32_t local initialised with static_cast<uint32_t>(size)'
-    R.check(msg is None, 'B4-set_size-patches-uint32', key + '#patch', fn.site, 'set_size: %s' % msg)
-    if msg is None:
-        _decide_guard(fb, R, fn, copies[0]['id'], ps, OT.UINT64, lambda w: w.le('n', 4294967295), 'B4-set_size-patches-uint32',
-                      key + '#range-guard', 'exactly the sizes above UINT32_MAX must be rejected before narrowing to uint32_t', extra=(4294967295,))
-        thr = [n for n in fn.all_nodes() if _geom_error_throw(n)]
-        R.check(bool(thr), 'B4-set_size-patches-uint32', key + '#range-guard/throws', fn.site, 'set_size does not throw geometry_error for oversized counts')
-
-
-def _wkb_header(fb, R, methods, data):
-    fn = methods.get('header')
-    key = WKB + '::header'
-    if fn is None or len(fn.params) != 3:
-        R.bad('B5-header-layout', key + '#offset', WKB, 'header(str, type, add_length) not found')
-        return
-    pstr, ptype, plen = (p['d'] for p in fn.params)
-    rets = [n for n in fn.all_nodes() if n.get('k') == 'return']
-    od = {local_or_param(fn, r.get('sub')) for r in rets}
-    msg = None
-    pushes = [n for n in fn.all_nodes() if n.get('k') == 'call' and n.get('q') == STR_PUSH and len(n.get('args', [])) == 2
-              and local_or_param(fn, n['args'][0]) == pstr]
-    other_mut = [n for n in fn.all_nodes() if n.get('k') == 'call' and n.get('q', '').startswith(BS) and n.get('recv') is not None
-                 and local_or_param(fn, n['recv']) == pstr and short(n['q']) not in ('size', 'length', 'empty')]
-    if len(od) != 1 or None in od:
-        msg = 'does not return one local'
-    else:
-        d = od.pop()
-        dn, dv = decl_of(fn, d)
-        i = pn(fn, dv.get('init')) if dv is not None else None
-        if i is None or i.get('k') != 'call' or i.get('q') != BS + 'size' or local_or_param(fn, i.get('recv')) != pstr \
-                or [w for w in writes(fn) if w[1] == ('var', d)]:
-            msg = 'the returned offset is not `str.size()` taken once'
-        elif other_mut:
-            msg = 'str is modified other than through str_push'
-        else:
-            after = [p for p in pushes if path_search(fn, dn['id'], lambda e: e == p['id'], lambda e: False) is not None]
-            before = [p for p in pushes if p not in after]
-            if len(after) != 1 or fn.const_value(after[0]['args'][1]) != 0 or fn.nodes.get(peel(fn, after[0]['args'][1]), {}).get('t') != 'unsigned int':
-                msg = 'after the offset is taken exactly one uint32 zero (the count placeholder) must be appended; found %s' % [fn.expr(p['id']) for p in after]
-            elif not any(s and local_or_param(fn, c) == plen for (c, s, _b) in guards_of(fn, after[0]['id'])):
-                msg = 'the count placeholder is not appended under `add_length`'
-            elif any(path_search(fn, p['id'], lambda e: e == dn['id'], lambda e: False) is None for p in before):
-                msg = 'a header field is appended on a path that does not continue to the offset computation'
-            else:
-                # per path: byte order (1 byte), type (uint32, from parameter), [srid iff SRID flag]
-                for path in normal_paths(fn) or []:
-                    seq = [fn.nodes[e] for e in path_elems(fn, path) if fn.nodes[e] in before]
-                    kinds = []
-                    for p in seq:
-                        a = p['args'][1]
-                        an = fn.nodes.get(peel(fn, a), {})
-                        vars_ = [fn.nodes[x] for x in fn.subtree(a) if fn.nodes[x].get('k') == 'var']
-                        if any(v.get('d') == ptype for v in vars_):
-                            kinds.append('type+srid' if any(short(v.get('q', '')) == 'wkbSRID' for v in vars_) else 'type')
-                        elif 'wkb_byte_order_type' in (an.get('t') or ''):
-                            kinds.append('order')
-                        elif this_field(fn, a) is not None and (an.get('t') or '').replace('const ', '') == 'int':
-                            kinds.append('srid')
-                        else:
-                            kinds.append('?' + fn.expr(a))
-                    if kinds not in (['order', 'type'], ['order', 'type+srid', 'srid']):
-                        msg = 'header fields on one path are %s; required: byte order, type, and the srid exactly when the SRID flag is set' % kinds
-    R.check(msg is None, 'B5-header-layout', key + '#offset', fn.site, 'header(): %s' % msg)
-    # enum values
-    e = fb.enum(WKB + '::wkbGeometryType')
-    if e is None:
-        R.broken('enum %s::wkbGeometryType not found' % WKB)
-    else:
-        vals = {x['name']: int(x['value']) for x in e['enumerators']}
-        wrong = {k: v for k, v in vals.items() if k in OGC_TYPES and OGC_TYPES[k] != v}
-        R.check(not wrong and all(k in vals for k in ('wkbPoint', 'wkbLineString', 'wkbPolygon', 'wkbMultiPolygon', 'wkbSRID')),
-                'B5-header-layout', WKB + '::wkbGeometryType#ogc-values', '%s:%d' % (e['file'], e['line']),
-                'geometry type codes differ from the OGC / EWKB table: %s' % wrong)
-    # users
-    for mname, (tname, addlen) in WKB_HEADER_USERS.items():
-        k2 = '%s::%s#header(%s)' % (WKB, mname, tname)
-        m = methods.get(mname)
-        if m is None:
-            R.bad('B5-header-layout', k2, WKB, '%s not found' % mname)
-            continue
-        hs = [n for n in m.all_nodes() if n.get('k') == 'call' and n.get('q') == WKB + '::header']
-        msg = None
-        if len(hs) != 1 or len(hs[0].get('args', [])) != 3:
-            msg = 'expected exactly one header() call'
-        else:
-            h = hs[0]
-            t = pn(m, h['args'][1])
-            if t is None or short(t.get('q', '')) != tname:
-                msg = 'writes geometry type %s, required %s' % (short(t.get('q', '?')) if t else '?', tname)
-            elif m.const_value(h['args'][2]) != addlen:
-                msg = 'add_length must be %s' % bool(addlen)
-            elif addlen:
-                # result must be stored in a member or handed to set_size
-                pm = m.parent_map()
-                x = h['id']
-                used = False
-                hops = 0
-                while x in pm and hops < 6:
-                    x = pm[x]
-                    hops += 1
-                    nx = m.nodes[x]
-                    if nx.get('k') == 'assign' and this_field(m, nx['lhs']) is not None:
-                        used = True
-                    if nx.get('k') == 'call' and nx.get('q') == WKB + '::set_size':
-                        used = True
-                if not used:
-                    msg = 'the offset of the count placeholder returned by header() is discarded: the count stays 0'
-            w = path_search(m, m.entry, exit_t, lambda e_: e_ == h['id'], from_block_start=True) if msg is None else None
-            if w is not None:
-                msg = 'header() is not written on every path'
-        R.check(msg is None, 'B5-header-layout', k2, m.site, '%s: %s' % (mname, msg))
-        if mname == 'polygon_start' and msg is None:
-            ss = [n for n in _set_size_calls(m) if _header_call(m, n['args'][0]) is not None]
-            R.check(len(ss) == 1 and m.const_value(ss[0]['args'][1]) == 1, 'B5-header-layout', WKB + '::polygon_start#ring-count-1', m.site,
-                    'polygon_start must patch the ring count of the polygon header with the constant 1 (a polygon built from a way has one ring)')
-
-
-def _coord_pushes(fn, data_key):
-    out = []
-    for n in fn.all_nodes():
-        if n.get('k') == 'call' and n.get('q') == STR_PUSH and len(n.get('args', [])) == 2:
-            out.append(n)
-    return out
-
-
-def _wkb_axis(fb, R, methods, data):
-    rec = fb.record(COORD)
-    fx, fy = (rec.fields[0]['name'], rec.fields[1]['name']) if rec is not None and len(rec.fields) >= 2 else ('x', 'y')
-    for mname in ('make_point', 'linestring_add_location', 'polygon_add_location', 'multipolygon_add_location'):
-        key = '%s::%s#x-then-y' % (WKB, mname)
-        fn = methods.get(mname)
-        if fn is None or not fn.params or COORD not in fn.params[0]['tC']:
-            R.bad('X1-axis-order', key, WKB, '%s(const Coordinates&) not found' % mname)
-            continue
-        pd = fn.params[0]['d']
-        pushes = _coord_pushes(fn, data)
-        seq = []
-        for p in sorted(pushes, key=lambda n: fn.positions().get(n['id'], (0, 0))[::-1] if False else n['id']):
-            a = pn(fn, p['args'][1])
-            if a is not None and a.get('k') == 'member' and local_or_param(fn, a.get('base')) == pd:
-                seq.append((a['name'], p, fn.nodes.get(p['args'][1], {}).get('t') or a.get('t')))
-            else:
-                seq.append(('?' + fn.expr(p['args'][1]), p, None))
-        msg = None
-        names = [s[0] for s in seq]
-        if sorted(names) != sorted([fx, fy]):
-            msg = 'must push exactly the two members %s and %s of its parameter, found %s' % (fx, fy, names)
-        else:
-            px = next(s[1] for s in seq if s[0] == fx)
-            py = next(s[1] for s in seq if s[0] == fy)
-            if not fn.elem_dominates(px['id'], py['id']):
-                msg = '%s must be written before %s (WKB point = x then y)' % (fx, fy)
-            elif any((pn(fn, s[1]['args'][1]) or {}).get('t', '').replace('const ', '') != 'double' for s in seq):
-                msg = 'coordinates must be pushed as 8 byte doubles'
-            else:
-                tgt = {lvalue_key(fn, s[1]['args'][0]) for s in seq}
-                if len(tgt) != 1 or None in tgt:
-                    msg = 'x and y are pushed into different strings'
-                for s in seq:
-                    if path_search(fn, fn.entry, exit_t, lambda e, i=s[1]['id']: e == i, from_block_start=True) is not None:
-                        msg = 'a coordinate is not written on every path'
-        R.check(msg is None, 'X1-axis-order', key, fn.site, '%s: %s' % (mname, msg))
-    # Coordinates::append_to_string
-    q = COORD + '::append_to_string'
-    got3 = got5 = False
-    for fn in fb.fns(q):
-        if len(fn.params) == 3:
-            got3 = True
-            ps, pi, pp = (p['d'] for p in fn.params)
-            d2s = [n for n in fn.all_nodes() if n.get('k') == 'call' and short(n.get('q', '')) == 'double2string']
-            inf = [n for n in fn.all_nodes() if n.get('k') == 'call' and n.get('q') == BS + 'operator+=' and local_or_param(fn, n.get('recv')) == ps
-                   and n.get('args') and local_or_param(fn, n['args'][0]) == pi]
-            msg = None
-            if len(d2s) != 2 or len(inf) != 1:
-                msg = 'expected double2string(x), s += infix, double2string(y)'
-            else:
-                def fld(c):
-                    a = pn(fn, c['args'][1]) if len(c.get('args', [])) == 3 else None
-                    return a['name'] if a is not None and a.get('k') == 'member' and fn.is_this_member(a['id']) else None
-                byf = {fld(c): c for c in d2s}
-                if set(byf) != {fx, fy}:
-                    msg = 'the two numbers written are %s, required %s and %s' % (sorted(map(str, byf)), fx, fy)
-                elif not (fn.elem_dominates(byf[fx]['id'], inf[0]['id']) and fn.elem_dominates(inf[0]['id'], byf[fy]['id'])):
-                    msg = 'order must be %s, infix, %s' % (fx, fy)
-                elif any(local_or_param(fn, c['args'][0]) != ps or local_or_param(fn, c['args'][2]) != pp for c in d2s):
-                    msg = 'double2string must receive the output string and the precision parameter'
-                elif not any(s and (pn(fn, c) or {}).get('q') == COORD + '::valid' for (c, s, _b) in guards_of(fn, byf[fx]['id'])):
-                    msg = 'numbers are written without valid() having been tested'
-            R.check(msg is None, 'X1-axis-order', q + '#x-infix-y', fn.site, 'append_to_string(s, infix, precision): %s' % msg)
-        elif len(fn.params) == 5:
-            got5 = True
-            ps, ppre, pi, psuf, pp = (p['d'] for p in fn.params)
-            adds = [n for n in fn.all_nodes() if n.get('k') == 'call' and n.get('q') == BS + 'operator+=' and local_or_param(fn, n.get('recv')) == ps]
-            inner = [n for n in fn.all_nodes() if n.get('k') == 'call' and n.get('q') == q]
-            msg = None
-            if len(adds) != 2 or len(inner) != 1:
-                msg = 'expected s += prefix, append_to_string(s, infix, precision), s += suffix'
-            else:
-                pre = [a for a in adds if local_or_param(fn, a['args'][0]) == ppre]
-                suf = [a for a in adds if local_or_param(fn, a['args'][0]) == psuf]
-                ia = inner[0].get('args', [])
-                if len(pre) != 1 or len(suf) != 1:
-                    msg = 'prefix / suffix are not appended once each'
-                elif not (fn.elem_dominates(pre[0]['id'], inner[0]['id']) and fn.elem_dominates(inner[0]['id'], suf[0]['id'])):
-                    msg = 'order must be prefix, coordinates, suffix'
-                elif len(ia) != 3 or [local_or_param(fn, a) for a in ia] != [ps, pi, pp] or not is_this(fn, inner[0].get('recv')):
-                    msg = 'the inner call must be this->append_to_string(s, infix, precision)'
-            R.check(msg is None, 'X1-axis-order', q + '#prefix-body-suffix', fn.site, 'append_to_string(s, prefix, infix, suffix, precision): %s' % msg)
-    if not got3:
-        R.bad('X1-axis-order', q + '#x-infix-y', COORD, 'append_to_string(s, infix, precision) not found')
-    if not got5:
-        R.bad('X1-axis-order', q + '#prefix-body-suffix', COORD, 'append_to_string(s, prefix, infix, suffix, precision) not found')
-
-
-def _wkb_handover(fb, R, methods, data):
-    hex_enum = 'osmium::geom::out_type::hex'
-    for mname in ('make_point', 'linestring_finish', 'polygon_finish', 'multipolygon_finish'):
-        fn = methods.get(mname)
-        key = '%s::%s' % (WKB, mname)
-        if fn is None:
-            R.bad('B7-patch-before-handover', key + '#hex-iff-requested', WKB, '%s not found' % mname)
-            continue
-        swaps = [n for n in fn.all_nodes() if n.get('k') == 'call' and n.get('q') == 'std::swap' and len(n.get('args', [])) == 2]
-        local = None
-        if mname != 'make_point':
-            msg = None
-            sw = [n for n in swaps if {lvalue_key(fn, a) for a in n['args']} >= {('field', data)}]
-            if len(sw) != 1:
-                msg = 'expected one swap of a local string with %s' % data
-            else:
-                other = [lvalue_key(fn, a) for a in sw[0]['args'] if lvalue_key(fn, a) != ('field', data)]
-                local = other[0][1] if other and other[0] and other[0][0] == 'var' else None
-                dn, dv = decl_of(fn, local) if local is not None else (None, None)
-                i = pn(fn, dv.get('init')) if dv is not None and isinstance(dv.get('init'), int) else None
-                if local is None or not (i is None or (i.get('k') == 'construct' and not i.get('args'))):
-                    msg = 'the local swapped with %s is not a fresh empty string (stale content would survive in %s)' % (data, data)
-                for c in _set_size_calls(fn):
-                    if not fn.elem_dominates(c['id'], sw[0]['id']):
-                        msg = 'set_size runs after %s was handed over to the local: it patches an empty string' % data
-            R.check(msg is None, 'B7-patch-before-handover', key + '#patch-before-handover', fn.site, '%s: %s' % (mname, msg))
-        else:
-            hs = [n for n in fn.all_nodes() if n.get('k') == 'call' and n.get('q') == WKB + '::header']
-            local = local_or_param(fn, hs[0]['args'][0]) if len(hs) == 1 and hs[0].get('args') else None
-        rets = [n for n in fn.all_nodes() if n.get('k') == 'return']
-        msg = None if rets and local is not None else 'cannot identify the result string'
-        nhex = nraw = 0
-        for r in rets:
-            if msg is not None:
-                break
-            gs = guards_of(fn, r['id'])
-            hexg = None
-            for (c, s, _b) in gs:
-                cn = pn(fn, c)
-                if cn is not None and cn.get('k') == 'binop' and cn.get('op') in ('==', '!='):
-                    sides = [pn(fn, cn['lhs']), pn(fn, cn['rhs'])]
-                    if any(x is not None and x.get('q') == hex_enum for x in sides) and any(this_field(fn, y) is not None for y in (cn['lhs'], cn['rhs'])):
-                        hexg = (cn['op'] == '==') == bool(s)
-            v = pn(fn, r.get('sub'))
-            is_hex = v is not None and v.get('k') == 'call' and v.get('q') == 'osmium::geom::detail::convert_to_hex' \
-                and v.get('args') and local_or_param(fn, v['args'][0]) == local
-            is_raw = local_or_param(fn, r.get('sub')) == local
-            if hexg is None:
-                # the fall-through return: reached when the hex test failed (early return on the hex edge)
-                hexg = False if any((pn(fn, fn.blocks[b].get('cond')) or {}).get('k') == 'binop' for b in fn.blocks if 'cond' in fn.blocks[b]) else None
-            if hexg is True and not is_hex:
-                msg = 'out_type::hex does not return convert_to_hex(<result>)'
-            elif hexg is False and not is_raw:
-                msg = 'binary output does not return the result string unchanged'
-            elif hexg is None:
-                msg = 'return is not related to the out_type test'
-            nhex += bool(is_hex)
-            nraw += bool(is_raw)
-        if msg is None and (nhex == 0 or nraw == 0):
-            msg = 'both a hex and a binary return are required'
-        R.check(msg is None, 'B7-patch-before-handover', key + '#hex-iff-requested', fn.site, '%s: %s' % (mname, msg))
-
-
-def reset_rules(fb, R):
-    for cls in (WKB, WKT, GEOJSON):
-        buf = _buffer_field(fb, cls)
-        if buf is None:
-            R.broken('%s: cannot identify the accumulation buffer member' % cls)
-            continue
-        for mname in ('linestring_start', 'polygon_start', 'multipolygon_start'):
-            key = '%s::%s#reset' % (cls, mname)
-            fn = _method(fb, cls, mname)
-            if fn is None:
-                R.bad('B6-start-resets-buffer', key, cls, '%s not found' % mname)
-                continue
-            elems = _single_path_elems(fn)
-            if elems is None:
-                R.broken('%s::%s: not a straight-line body' % (cls, mname))
-                continue
-            first = None
-            for e in elems:
-                n = fn.nodes[e]
-                if n.get('k') != 'call':
-                    continue
-                touches = recv_field(fn, n) == buf or any(this_field(fn, a) == buf for a in n.get('args', []))
-                if not touches or (n.get('q', '').startswith(BS) and short(n['q']) in ('size', 'empty', 'length', 'capacity')):
-                    continue
-                first = n
-                break
-            ok = first is not None and recv_field(fn, first) == buf and first.get('q') in (BS + 'clear', BS + 'operator=', BS + 'assign')
-            R.check(ok, 'B6-start-resets-buffer', key, fn.loc(first['id']) if first else fn.site,
-                    '%s::%s appends to %s without resetting it first (content left behind by a geometry that ended in an exception, e.g. '
-                    '"need at least two points", would be prepended to the next geometry); first operation: %s'
-                    % (short(cls), mname, buf, fn.expr(first['id']) if first else 'none'))
-
-
-# ================================================================================================ text back ends
-
-TEXT_METHODS = ['make_point', 'linestring_start', 'linestring_add_location', 'linestring_finish', 'polygon_start', 'polygon_add_location',
-                'polygon_finish', 'multipolygon_start', 'multipolygon_polygon_start', 'multipolygon_polygon_finish',
-                'multipolygon_outer_ring_start', 'multipolygon_outer_ring_finish', 'multipolygon_inner_ring_start',
-                'multipolygon_inner_ring_finish', 'multipolygon_add_location', 'multipolygon_finish']
-STRING_READS = ('size', 'empty', 'length', 'capacity', 'c_str', 'data', 'back', 'front', '(dtor)', 'begin', 'end')
+OGC_CODE = {'point': 1, 'linestring': 2, 'polygon': 3, 'multipolygon': 6}
+SRID_FLAG = 0x20000000
+KINDS = ('point', 'linestring', 'polygon', 'multipolygon')
+STARTED_KINDS = ('linestring', 'polygon', 'multipolygon')
 
 
 class _Unknown(Exception):
     pass
+
+
+class _GrammarError(Exception):
+    def __init__(self, msg, cls='count'):
+        Exception.__init__(self, msg)
+        self.cls = cls
 
 
 def _is_string_t(t):
@@ -1770,169 +1287,9 @@ def _is_string_t(t):
     return t.startswith(('std::string', 'std::basic_string<char'))
 
 
-def _text_ops(fn, buf, other_fields):
-    """Straight-line string transformer of one back-end method: list of ops over string objects ('field', name) / ('var', d).
-       ('set', T, tokens) ('copy', T, S) ('append', T, tokens) ('point', T, prefix, infix, suffix, precision-ok)
-       ('replace_last', T, ch) ('swap', A, B) ('return', T)"""
-    paths = normal_paths(fn)
-    if not paths:
-        raise _Unknown('no normal path / loop in body')
-    results = []
-    for path in paths:
-        ops = []
-        handled = set()
-        for e in path_elems(fn, path):
-            n = fn.nodes[e]
-            k = n.get('k')
-            if k == 'decl':
-                for v in n['vars']:
-                    if not _is_string_t(v['tC']):
-                        continue
-                    i = pn(fn, v.get('init')) if isinstance(v.get('init'), int) else None
-                    if i is None or (i.get('k') == 'construct' and not i.get('args')):
-                        ops.append(('set', ('var', v['d']), []))
-                    else:
-                        s = string_of(fn, v['init'])
-                        src = lvalue_key(fn, i['args'][0]) if i.get('k') == 'construct' and len(i.get('args', [])) >= 1 else lvalue_key(fn, v['init'])
-                        if s is not None:
-                            ops.append(('set', ('var', v['d']), list(s)))
-                        elif src is not None:
-                            ops.append(('copy', ('var', v['d']), src))
-                        else:
-                            raise _Unknown('string local %s initialised by %s' % (v['name'], fn.expr(v['init'])))
-                continue
-            if k == 'assign':
-                l = pn(fn, n['lhs'])
-                if l is not None and l.get('k') == 'call' and l.get('q') == BS + 'back' and l.get('recv') is not None:
-                    T = lvalue_key(fn, l['recv'])
-                    ch = char_of(fn, n['rhs'])
-                    if T is None or ch is None or n.get('op') != '=':
-                        raise _Unknown('assignment through back(): %s' % fn.expr(e))
-                    ops.append(('replace_last', T, ch))
-                    handled.add(l['id'])
-                elif l is not None and _is_string_t(l.get('t')):
-                    raise _Unknown('string assignment %s' % fn.expr(e))
-                continue
-            if k == 'return':
-                if 'sub' in n:
-                    T = lvalue_key(fn, n['sub'])
-                    if T is None:
-                        raise _Unknown('returns %s' % fn.expr(n['sub']))
-                    ops.append(('return', T))
-                continue
-            if k != 'call' or 'q' not in n:
-                continue
-            q = n['q']
-            if q == 'std::swap' and len(n.get('args', [])) == 2:
-                A, B = lvalue_key(fn, n['args'][0]), lvalue_key(fn, n['args'][1])
-                if A is None or B is None:
-                    raise _Unknown('swap of %s' % fn.expr(e))
-                ops.append(('swap', A, B))
-                continue
-            if q == COORD + '::append_to_string':
-                a = n.get('args', [])
-                T = lvalue_key(fn, a[0]) if a else None
-                rv = local_or_param(fn, n.get('recv'))
-                if T is None or rv is None or param_index(fn, rv) != 0:
-                    raise _Unknown('append_to_string call %s' % fn.expr(e))
-                chars = [char_of(fn, x) for x in a[1:-1]]
-                if None in chars or len(chars) not in (1, 3):
-                    raise _Unknown('append_to_string with non-constant delimiters: %s' % fn.expr(e))
-                precf = this_field(fn, a[-1])
-                pre, inf, suf = (None, chars[0], None) if len(chars) == 1 else chars
-                ops.append(('point', T, pre, inf, suf, precf))
-                continue
-            if q.startswith(BS) and n.get('recv') is not None:
-                T = lvalue_key(fn, n['recv'])
-                nm = short(q)
-                if T is None:
-                    if nm in STRING_READS or nm == '(ctor)':
-                        continue
-                    raise _Unknown('string operation on %s' % fn.expr(n['recv']))
-                if nm in STRING_READS:
-                    continue
-                if nm == 'clear':
-                    ops.append(('set', T, []))
-                    continue
-                a = n.get('args', [])
-                if nm in ('operator=', 'assign') and len(a) == 1:
-                    s = string_of(fn, a[0])
-                    src = lvalue_key(fn, a[0])
-                    if s is not None:
-                        ops.append(('set', T, list(s)))
-                    elif src is not None:
-                        ops.append(('copy', T, src))
-                    else:
-                        raise _Unknown('assignment %s' % fn.expr(e))
-                    continue
-                if nm in ('operator+=', 'append', 'push_back') and len(a) == 1:
-                    s = string_of(fn, a[0])
-                    ch = char_of(fn, a[0]) if s is None else None
-                    if s is not None:
-                        ops.append(('append', T, list(s)))
-                    elif ch is not None:
-                        ops.append(('append', T, [ch]))
-                    elif lvalue_key(fn, a[0]) is not None and _is_string_t(fn.nodes.get(peel(fn, a[0]), {}).get('t')):
-                        ops.append(('append_from', T, lvalue_key(fn, a[0])))
-                    else:
-                        raise _Unknown('append of a non-constant: %s' % fn.expr(e))
-                    continue
-                raise _Unknown('string operation %s' % fn.expr(e))
-        results.append(ops)
-    for r in results[1:]:
-        if r != results[0]:
-            raise _Unknown('different string operations on different paths')
-    return results[0]
-
-
-def _apply(ops, state, buf, tag):
-    """Interpret one method's ops on the abstract buffer content.  Returns (returned token list | None).  Raises _GrammarError."""
-    local = {}
-
-    def get(T):
-        if T == ('field', buf):
-            return state['buf']
-        if T[0] == 'field':
-            return [('PFX', T[1])]
-        return local.setdefault(T, [])
-
-    def put(T, v):
-        if T == ('field', buf):
-            state['buf'] = v
-        elif T[0] == 'field':
-            raise _Unknown('write to member %s' % T[1])
-        else:
-            local[T] = v
-    ret = None
-    for op in ops:
-        if op[0] == 'set':
-            put(op[1], list(op[2]))
-        elif op[0] == 'copy':
-            put(op[1], list(get(op[2])))
-        elif op[0] == 'append':
-            put(op[1], get(op[1]) + list(op[2]))
-        elif op[0] == 'append_from':
-            put(op[1], get(op[1]) + list(get(op[2])))
-        elif op[0] == 'point':
-            put(op[1], get(op[1]) + [('P', op[2], op[3], op[4], tag)])
-        elif op[0] == 'replace_last':
-            cur = get(op[1])
-            if not cur:
-                raise _GrammarError('back() = %r on an empty string' % op[2])
-            if cur[-1] != ',':
-                raise _GrammarError('back() = %r overwrites %s, which is not a separator: content is lost' % (op[2], _show([cur[-1]])))
-            put(op[1], cur[:-1] + [op[2]])
-        elif op[0] == 'swap':
-            a, b = get(op[1]), get(op[2])
-            put(op[1], b)
-            put(op[2], a)
-        elif op[0] == 'return':
-            ret = list(get(op[1]))
-    return ret
-
-
-class _GrammarError(Exception):
-    pass
+def _method(fb, cls, name):
+    fns = [f for f in fb.fns('%s::%s' % (cls, name)) if f.has_cfg]
+    return fns[0] if fns else None
 
 
 def _show(tokens):
@@ -1941,12 +1298,339 @@ def _show(tokens):
         if isinstance(t, tuple):
             if t[0] == 'PFX':
                 out.append('<srid-prefix>')
+            elif t[0] == 'P':
+                out.append('%sx%s%sy%s%s' % (t[1] or '', t[4], t[2], t[4], t[3] or ''))
+            elif t[0] == 'bin':
+                v = t[3]
+                out.append('<%s%d:%s>' % ('f' if t[2] == 'double' else 'u', t[1] * 8, v.name if isinstance(v, Sym) else v))
+            elif t[0] == 'hex':
+                out.append('hex(' + _show(t[1]) + ')')
             else:
-                out.append('%sx%d%sy%d%s' % (t[1] or '', t[4], t[2], t[4], t[3] or ''))
+                out.append(repr(t))
         else:
             out.append(t)
     return ''.join(out)
 
+
+def _coord(tag):
+    return Obj('osmium::geom::Coordinates', {'x': Sym(('x', tag)), 'y': Sym(('y', tag)), 'tag': tag})
+
+
+def _initial_object(fb, cls, overrides):
+    """Abstract instance of a back end: strings empty, integers 0, everything named in overrides as given."""
+    rec = fb.record(cls)
+    if rec is None:
+        raise _Unknown('record %s not found' % cls)
+    f = {}
+    for fd in rec.fields:
+        if fd['name'] in overrides:
+            f[fd['name']] = overrides[fd['name']]
+        elif _is_string_t(fd['tC']):
+            f[fd['name']] = Str()
+        else:
+            f[fd['name']] = 0
+    return Obj(cls, f)
+
+
+def _sequences(kind):
+    """(event list [(method, argument list)], expected nested tag structure) for every protocol sequence up to the bound."""
+    out = []
+    if kind == 'point':
+        return [([('make_point', [_coord(1)])], 1)]
+    if kind in ('linestring', 'polygon'):
+        for k in (1, 2, 3):
+            ev = [(kind + '_start', [])] + [(kind + '_add_location', [_coord(i + 1)]) for i in range(k)] + [(kind + '_finish', [k])]
+            pts = [i + 1 for i in range(k)]
+            out.append((ev, pts if kind == 'linestring' else [pts]))
+        return out
+    shapes = []
+    for npoly in (1, 2):
+        for inner_counts in itertools.product((0, 1, 2), repeat=npoly):
+            for k in (1, 2):
+                shapes.append((inner_counts, k))
+    for inner_counts, k in shapes:
+        ev = [('multipolygon_start', [])]
+        expect = []
+        tag = 0
+        first = True
+        for ni in inner_counts:
+            if not first:
+                ev.append(('multipolygon_polygon_finish', []))
+            first = False
+            ev.append(('multipolygon_polygon_start', []))
+            poly = []
+            for r in range(1 + ni):
+                which = 'outer' if r == 0 else 'inner'
+                ev.append(('multipolygon_%s_ring_start' % which, []))
+                ring = []
+                for _ in range(k):
+                    tag += 1
+                    ev.append(('multipolygon_add_location', [_coord(tag)]))
+                    ring.append(tag)
+                ev.append(('multipolygon_%s_ring_finish' % which, []))
+                poly.append(ring)
+            expect.append(poly)
+        ev.append(('multipolygon_polygon_finish', []))
+        ev.append(('multipolygon_finish', []))
+        out.append((ev, expect))
+    return out
+
+
+def _run_events(model, fb, cls, obj, events):
+    ret = None
+    for (m, args) in events:
+        fn = _method(fb, cls, m)
+        if fn is None:
+            raise _GrammarError('method %s::%s does not exist' % (short(cls), m))
+        if len(fn.params) != len(args):
+            raise _Unknown('%s::%s takes %d parameters, the protocol passes %d' % (short(cls), m, len(fn.params), len(args)))
+        ret = model.call(fn, obj, list(args))
+    return ret
+
+
+def _ev_text(events):
+    return ' '.join(m.replace('multipolygon_', 'mp_') for (m, _a) in events)
+
+
+def _scenarios(kind, events):
+    """(name, prelude events, fresh-object?)  prelude runs on the same object before the sequence proper."""
+    yield ('fresh', [])
+    if kind != 'point':
+        yield ('second geometry on the same factory', list(events))
+        yield ('after a geometry that was abandoned by an exception', list(events[:-1]))
+
+
+def _abstract_check(fb, R, cls, make_obj, configs, decode, rules, site_of):
+    """rules: {error class: (rule, key suffix, kinds)}.  Runs every kind x config x sequence x scenario and reports one instance per
+    (rule, kind).  A failure that only shows after an abandoned geometry (the same sequence decodes correctly on a fresh
+    object) is of class 'reset'."""
+    for kind in KINDS:
+        errors = {}      # error class -> message (first)
+        nruns = 0
+        broken = None
+        for cfg in configs:
+            for (events, expect) in _sequences(kind):
+                for (scen, prelude) in _scenarios(kind, events):
+                    model = Model(fb)
+                    obj = make_obj(cfg)
+                    ret = None
+                    nruns += 1
+                    try:
+                        try:
+                            if prelude:
+                                _run_events(model, fb, cls, obj, prelude)
+                            ret = _run_events(model, fb, cls, obj, events)
+                            if not isinstance(ret, Str):
+                                raise _GrammarError('the finishing method returns no string')
+                            got = decode(ret.t, kind, cfg)
+                            if got != expect:
+                                raise _GrammarError('structure %r was fed in but the output encodes %r' % (expect, got))
+                            left = [f for f, v in obj.f.items() if isinstance(v, Str) and v.t and not any(isinstance(t, tuple) and t[0] == 'PFX' for t in v.t)]
+                            if left and kind != 'point':
+                                raise _GrammarError('finish leaves %r in %s' % (_show(obj.f[left[0]].t), left[0]))
+                        except ModelError as e:
+                            raise _GrammarError(str(e))
+                        except ModelThrow as e:
+                            raise _GrammarError('valid input is rejected: %s' % e)
+                        except ModelAbort as e:
+                            raise _GrammarError('assertion fails: %s' % e)
+                    except _GrammarError as e:
+                        c = 'reset' if scen.startswith('after a geometry') else e.cls
+                        errors.setdefault(c, '%s; %s%s: events %s produce %s' % (
+                            e, scen, (' [%s]' % cfg_text(cfg)) if cfg else '', _ev_text(events), _show(ret.t) if isinstance(ret, Str) else 'nothing'))
+                        if scen == 'fresh':
+                            break        # the other scenarios of this sequence add nothing once the plain run fails
+                    except (ModelUnknown, _Unknown) as e:
+                        broken = str(e)
+                        break
+                if broken:
+                    break
+            if broken:
+                break
+        if broken:
+            R.broken('%s#%s: %s' % (cls, kind, broken))
+            continue
+        for c, (rule, suffix, kinds) in rules.items():
+            if kind not in kinds:
+                continue
+            R.check(c not in errors, rule, '%s#%s%s' % (cls, kind, suffix), site_of(kind), errors.get(c, ''),
+                    detail='%d abstract runs (sequences x configurations x scenarios) decoded' % nruns)
+
+
+def cfg_text(cfg):
+    return ', '.join('%s=%s' % kv for kv in sorted(cfg.items())) if cfg else ''
+
+
+# ------------------------------------------------------------------------------------------------ WKB
+
+def _wkb_decode(tokens, kind, cfg):
+    if cfg.get('hex'):
+        if len(tokens) != 1 or not (isinstance(tokens[0], tuple) and tokens[0][0] == 'hex'):
+            raise _GrammarError('out_type::hex was requested but the result is not convert_to_hex(<data>)', 'hex')
+        tokens = list(tokens[0][1])
+    elif any(isinstance(t, tuple) and t[0] == 'hex' for t in tokens):
+        raise _GrammarError('binary output was requested but the result is hex encoded', 'hex')
+    pos = [0]
+
+    def peek():
+        return tokens[pos[0]] if pos[0] < len(tokens) else None
+
+    def take(size, what, cls):
+        t = peek()
+        if not (isinstance(t, tuple) and t[0] == 'bin') or t[1] != size:
+            raise _GrammarError('expected %s (%d bytes) at field %d, found %s in %s' % (what, size, pos[0], _show([t]) if t is not None else 'end of data', _show(tokens)), cls)
+        pos[0] += 1
+        return t
+
+    def header(code):
+        o = take(1, 'the byte order mark', 'header')
+        if o[3] not in (0, 1):
+            raise _GrammarError('byte order mark has the value %r' % (o[3],), 'header')
+        t = take(4, 'the geometry type', 'header')
+        want = code | (SRID_FLAG if cfg.get('ewkb') else 0)
+        if t[3] != want:
+            raise _GrammarError('geometry type field is %r, required %d%s' % (t[3], code, ' | SRID flag' if cfg.get('ewkb') else ''), 'header')
+        if cfg.get('ewkb'):
+            s = take(4, 'the srid', 'header')
+            if s[3] != Sym('srid'):
+                raise _GrammarError('the field after an EWKB type is %r, required the srid' % (s[3],), 'header')
+
+    def count(what):
+        t = take(4, 'the %s count' % what, 'count')
+        if not isinstance(t[3], int) or isinstance(t[3], bool):
+            raise _GrammarError('the %s count is %r' % (what, t[3]), 'count')
+        return t[3]
+
+    def is_double(t):
+        return isinstance(t, tuple) and t[0] == 'bin' and t[2] == 'double'
+
+    def point():
+        a, b = peek(), (tokens[pos[0] + 1] if pos[0] + 1 < len(tokens) else None)
+        if not (is_double(a) and is_double(b) and a[1] == 8 and b[1] == 8):
+            raise _GrammarError('a point must be two 8 byte doubles, found %s' % _show([x for x in (a, b) if x is not None]), 'coord')
+        pos[0] += 2
+        va, vb = a[3], b[3]
+        if not (isinstance(va, Sym) and isinstance(vb, Sym) and isinstance(va.name, tuple) and isinstance(vb.name, tuple)
+                and va.name[0] == 'x' and vb.name[0] == 'y' and va.name[1] == vb.name[1]):
+            raise _GrammarError('a point must be written as x then y of the same coordinates, found %s' % _show([a, b]), 'coord')
+        return va.name[1]
+
+    def points(what):
+        n = count(what)
+        got = []
+        while is_double(peek()):
+            got.append(point())
+        if n != len(got):
+            raise _GrammarError('the %s count field says %d but %d points follow' % (what, n, len(got)), 'count')
+        return got
+
+    def polygon():
+        header(OGC_CODE['polygon'])
+        n = count('ring')
+        rings = []
+        while True:
+            t = peek()
+            if isinstance(t, tuple) and t[0] == 'bin' and t[1] == 4 and t[2] != 'double':
+                rings.append(points('point'))
+            else:
+                break
+        if n != len(rings):
+            raise _GrammarError('the ring count field says %d but %d rings follow' % (n, len(rings)), 'count')
+        return rings
+
+    if kind == 'point':
+        header(OGC_CODE['point'])
+        val = point()
+    elif kind == 'linestring':
+        header(OGC_CODE['linestring'])
+        val = points('point')
+    elif kind == 'polygon':
+        val = polygon()
+    else:
+        header(OGC_CODE['multipolygon'])
+        n = count('polygon')
+        val = []
+        while True:
+            t = peek()
+            if isinstance(t, tuple) and t[0] == 'bin' and t[1] == 1:
+                val.append(polygon())
+            else:
+                break
+        if n != len(val):
+            raise _GrammarError('the polygon count field says %d but %d polygons follow' % (n, len(val)), 'count')
+    if pos[0] != len(tokens):
+        raise _GrammarError('%d unexpected fields after the geometry: %s' % (len(tokens) - pos[0], _show(tokens[pos[0]:])), 'count')
+    return val
+
+
+def _wkb_config_fields(fb):
+    """names of the wkb_type / out_type / srid members (by type)."""
+    rec = fb.record(WKB)
+    out = {}
+    for fd in rec.fields if rec else []:
+        if fd['tC'].endswith('wkb_type'):
+            out['ewkb'] = fd['name']
+        elif fd['tC'].endswith('out_type'):
+            out['hex'] = fd['name']
+        elif fd['tC'] == 'int':
+            out['srid'] = fd['name']
+    return out
+
+
+def wkb_rules(fb, R):
+    rec = fb.record(WKB)
+    if rec is None:
+        R.broken('record %s not found' % WKB)
+        return
+    cf = _wkb_config_fields(fb)
+    ew, hx = fb.enum('osmium::geom::wkb_type'), fb.enum('osmium::geom::out_type')
+    if set(cf) != {'ewkb', 'hex', 'srid'} or ew is None or hx is None:
+        R.broken('%s: configuration members (wkb_type, out_type, int srid) not found' % WKB)
+        return
+    ewv = {x['name']: int(x['value']) for x in ew['enumerators']}
+    hxv = {x['name']: int(x['value']) for x in hx['enumerators']}
+    if 'ewkb' not in ewv or 'wkb' not in ewv or 'hex' not in hxv or 'binary' not in hxv:
+        R.broken('enumerators wkb_type::{wkb, ewkb} / out_type::{binary, hex} not found')
+        return
+
+    def make(cfg):
+        return _initial_object(fb, WKB, {cf['srid']: Sym('srid'), cf['ewkb']: ewv['ewkb' if cfg['ewkb'] else 'wkb'],
+                                         cf['hex']: hxv['hex' if cfg['hex'] else 'binary']})
+    configs = [{'ewkb': e, 'hex': h} for e in (False, True) for h in (False, True)]
+
+    def site(kind):
+        fn = _method(fb, WKB, 'make_point' if kind == 'point' else kind + '_finish')
+        return fn.site if fn else '%s:%d' % (rec.file, rec.line)
+    _abstract_check(fb, R, WKB, make, configs, _wkb_decode, {
+        'count': ('B1-wkb-counts-match-elements', '', KINDS),
+        'header': ('B5-header-layout', '', KINDS),
+        'coord': ('X1-axis-order', '', KINDS),
+        'hex': ('B7-hex-iff-requested', '', KINDS),
+        'reset': ('B6-start-resets-buffer', '', STARTED_KINDS),
+    }, site)
+    _wkb_set_size(fb, R)
+
+
+def _wkb_set_size(fb, R):
+    """the narrowing to uint32_t in set_size is guarded: exactly the sizes above UINT32_MAX are rejected with geometry_error."""
+    fn = _method(fb, WKB, 'set_size')
+    key = WKB + '::set_size'
+    if fn is None or len(fn.params) != 2:
+        R.bad('B4-set_size-range-guard', key + '#range-guard', WKB, 'set_size(offset, size) not found')
+        return
+    ps = fn.params[1]['d']
+    narrow = [n for n in fn.all_nodes() if n.get('k') == 'cast' and (n.get('toC') or '').replace('const ', '') in ('unsigned int', 'int')
+              and local_or_param(fn, n.get('sub')) == ps]
+    if not narrow:
+        R.broken('%s: the narrowing conversion of the size parameter was not found' % fn.full)
+        return
+    _decide_guard(fb, R, fn, narrow[0]['id'], ps, OT.UINT64, lambda w: w.le('n', 4294967295), 'B4-set_size-range-guard',
+                  key + '#range-guard', 'exactly the sizes above UINT32_MAX must be rejected before narrowing to uint32_t', extra=(4294967295,))
+    thr = [n for n in fn.all_nodes() if _geom_error_throw(n)]
+    R.check(bool(thr), 'B4-set_size-range-guard', key + '#range-guard/throws', fn.site, 'set_size does not throw geometry_error for oversized counts')
+
+
+# ------------------------------------------------------------------------------------------------ WKT / GeoJSON
 
 TEXT_FORMATS = {
     WKT: dict(open='(', close=')', leaf=(None, ' ', None), point=('(', ' ', ')'),
@@ -1980,6 +1664,8 @@ def _parse(tokens, fmt, kind):
         t = tokens[pos]
         if (t[1], t[2], t[3]) != shape:
             raise _GrammarError('coordinate pair written as %r, required delimiters %r' % (_show([t]), shape))
+        if t[5] != Sym('precision'):
+            raise _GrammarError('coordinate pair %s is formatted with precision %r instead of the precision member' % (_show([t]), t[5]), 'precision')
         pos += 1
         return t[4]
 
@@ -2006,118 +1692,136 @@ def _parse(tokens, fmt, kind):
     return val
 
 
-def _sequences(kind):
-    """(event list, expected nested tag structure) for every protocol sequence up to the bound."""
-    out = []
-    if kind == 'point':
-        return [([('make_point', 1)], 1)]
-    if kind in ('linestring', 'polygon'):
-        for k in (1, 2, 3):
-            ev = [(kind + '_start', None)] + [(kind + '_add_location', i + 1) for i in range(k)] + [(kind + '_finish', None)]
-            pts = [i + 1 for i in range(k)]
-            out.append((ev, pts if kind == 'linestring' else [pts]))
-        return out
-    shapes = []
-    for npoly in (1, 2):
-        per_poly = list(itertools.product((0, 1, 2), repeat=npoly))
-        for inner_counts in per_poly:
-            for k in (1, 2):
-                shapes.append((inner_counts, k))
-    for inner_counts, k in shapes:
-        ev = [('multipolygon_start', None)]
-        expect = []
-        tag = 0
-        first = True
-        for ni in inner_counts:
-            if not first:
-                ev.append(('multipolygon_polygon_finish', None))
-            first = False
-            ev.append(('multipolygon_polygon_start', None))
-            poly = []
-            for r in range(1 + ni):
-                which = 'outer' if r == 0 else 'inner'
-                ev.append(('multipolygon_%s_ring_start' % which, None))
-                ring = []
-                for _ in range(k):
-                    tag += 1
-                    ev.append(('multipolygon_add_location', tag))
-                    ring.append(tag)
-                ev.append(('multipolygon_%s_ring_finish' % which, None))
-                poly.append(ring)
-            expect.append(poly)
-        ev.append(('multipolygon_polygon_finish', None))
-        ev.append(('multipolygon_finish', None))
-        out.append((ev, expect))
-    return out
-
-
 def text_rules(fb, R):
     for cls, fmt in TEXT_FORMATS.items():
         rec = fb.record(cls)
         if rec is None:
             R.broken('record %s not found' % cls)
             continue
-        buf = _buffer_field(fb, cls)
-        if buf is None:
-            R.broken('%s: cannot identify the accumulation buffer member' % cls)
-            continue
-        other = [f['name'] for f in rec.fields if _is_string_t(f['tC']) and f['name'] != buf]
-        ops = {}
-        broken = False
-        for m in TEXT_METHODS:
-            fn = _method(fb, cls, m)
-            if fn is None:
-                R.bad('S1-text-nesting-grammar', '%s#%s' % (cls, m.split('_')[0] if not m.startswith('make') else 'point'), cls, 'method %s not found' % m)
-                broken = True
-                continue
-            try:
-                ops[m] = _text_ops(fn, buf, other)
-            except _Unknown as e:
-                R.broken('%s::%s: string transformer not understood: %s' % (cls, m, e))
-                broken = True
-        if broken:
-            continue
-        # precision member
-        precs = {op[5] for m in ops.values() for op in m if op[0] == 'point'}
-        intf = [f['name'] for f in rec.fields if f['tC'] == 'int']
-        ctor_ok = False
+        ints = [f['name'] for f in rec.fields if f['tC'] == 'int']
+        strs = [f['name'] for f in rec.fields if _is_string_t(f['tC'])]
+        # the precision member: the int member a constructor fills from one of its parameters
+        prec = None
         for c in fb.fns(cls + '::(ctor)'):
             for n in c.all_nodes():
-                if n.get('k') == 'init' and n.get('name') in precs and local_or_param(c, n.get('init')) is not None \
+                if n.get('k') == 'init' and n.get('name') in ints and local_or_param(c, n.get('init')) is not None \
                         and param_index(c, local_or_param(c, n['init'])) is not None:
-                    ctor_ok = True
-        R.check(len(precs) == 1 and None not in precs and precs <= set(intf) and ctor_ok, 'S1-text-nesting-grammar', cls + '#precision-member',
-                '%s:%d' % (rec.file, rec.line),
-                'every coordinate must be formatted with the precision member that the constructor fills from its parameter; found %s' % sorted(map(str, precs)))
-        for kind in ('point', 'linestring', 'polygon', 'multipolygon'):
-            key = '%s#%s' % (cls, kind)
-            err = None
-            nseq = 0
-            for (events, expect) in _sequences(kind):
-                nseq += 1
-                state = {'buf': []}
-                ret = None
-                try:
-                    # a previous geometry that ended in an exception leaves content behind: start from a dirty buffer as well
-                    for dirty in ([], ['#', ',']) if kind != 'point' else ([],):
-                        state['buf'] = list(dirty)
-                        for (m, tag) in events:
-                            ret = _apply(ops[m], state, buf, tag)
-                        if ret is None:
-                            raise _GrammarError('the finishing method returns nothing')
-                        got = _parse(ret, fmt, kind)
-                        if got != expect:
-                            raise _GrammarError('structure %r was fed in but the text encodes %r' % (expect, got))
-                        if state['buf']:
-                            raise _GrammarError('finish leaves %r in %s' % (_show(state['buf']), buf))
-                except _GrammarError as e:
-                    err = '%s; events %s produce %r' % (e, ' '.join(m.replace('multipolygon_', 'mp_') for (m, _t) in events), _show(ret or state['buf']))
-                    break
-                except _Unknown as e:
-                    R.broken('%s: %s' % (key, e))
-                    break
-            fn0 = _method(fb, cls, 'make_point' if kind == 'point' else kind + '_start')
-            R.check(err is None, 'S1-text-nesting-grammar', key, fn0.site if fn0 else cls, err or '', detail='%d protocol sequences composed and parsed' % nseq)
+                    prec = n['name']
+            for (n, key, kind_, rhs) in writes(c):
+                if key[0] == 'field' and key[1] in ints and kind_ == 'assign' and param_index(c, local_or_param(c, rhs) or -1) is not None:
+                    prec = key[1]
+        if prec is None:
+            R.bad('S1-text-nesting-grammar', cls + '#precision-member', '%s:%d' % (rec.file, rec.line),
+                  'no constructor stores its precision parameter in a member')
+            continue
+        # the srid prefix (WKT): a string member other than the accumulation buffer is given an opaque prefix token
+        prefix_members = []
+        if fmt['prefix_ok']:
+            for c in fb.fns(cls + '::(ctor)'):
+                for n in c.all_nodes():
+                    if n.get('k') == 'call' and n.get('q', '').startswith(BS) and recv_field(c, n) in strs:
+                        prefix_members.append(recv_field(c, n))
+
+        def make(cfg, prec=prec, prefix_members=prefix_members, cls=cls):
+            ov = {prec: Sym('precision')}
+            for pm_ in set(prefix_members):
+                ov[pm_] = Str([('PFX', pm_)] if cfg.get('srid_prefix') else [])
+            return _initial_object(fb, cls, ov)
+        configs = [{'srid_prefix': False}, {'srid_prefix': True}] if prefix_members else [{}]
+
+        def decode(tokens, kind, cfg, fmt=fmt):
+            has = bool(tokens) and isinstance(tokens[0], tuple) and tokens[0][0] == 'PFX'
+            if bool(cfg.get('srid_prefix')) != has:
+                raise _GrammarError('the SRID prefix is %s' % ('missing' if not has else 'written although none is configured'))
+            return _parse(tokens, fmt, kind)
+
+        def site(kind, cls=cls, rec=rec):
+            fn = _method(fb, cls, 'make_point' if kind == 'point' else kind + '_start')
+            return fn.site if fn else '%s:%d' % (rec.file, rec.line)
+        _abstract_check(fb, R, cls, make, configs, decode, {
+            'count': ('S1-text-nesting-grammar', '', KINDS),
+            'precision': ('S1-text-nesting-grammar', '/precision-member', KINDS),
+            'reset': ('B6-start-resets-buffer', '', STARTED_KINDS),
+        }, site)
+
+
+# ------------------------------------------------------------------------------------------------ Coordinates::append_to_string
+
+def coordinates_rules(fb, R):
+    q = COORD + '::append_to_string'
+    hooks = {
+        COORD + '::valid': lambda fr, nid, n, args: True,
+        'osmium::double2string': lambda fr, nid, n, args: _d2s(fr, nid, n, args),
+    }
+    seen = set()
+    for fn in fb.fns(q):
+        if len(fn.params) not in (3, 5):
+            continue
+        nparam = len(fn.params)
+        key = q + ('#x-infix-y' if nparam == 3 else '#prefix-body-suffix')
+        seen.add(nparam)
+        s = Str()
+        c = Obj(COORD, {'x': Sym('x'), 'y': Sym('y')})
+        model = Model(fb, hooks=hooks, atomic_points=False)
+        try:
+            if nparam == 3:
+                model.call(fn, c, [s, ord(' '), Sym('precision')])
+                want = [('num', Sym('x'), Sym('precision')), ' ', ('num', Sym('y'), Sym('precision'))]
+            else:
+                model.call(fn, c, [s, ord('<'), ord(' '), ord('>'), Sym('precision')])
+                want = ['<', ('num', Sym('x'), Sym('precision')), ' ', ('num', Sym('y'), Sym('precision')), '>']
+        except (ModelUnknown, _Unknown) as e:
+            R.broken('%s: %s' % (q, e))
+            continue
+        except (ModelError, ModelThrow, ModelAbort) as e:
+            R.bad('X1-axis-order', key, fn.site, 'append_to_string fails on valid coordinates: %s' % e)
+            continue
+        R.check(s.t == want, 'X1-axis-order', key, fn.site,
+                'append_to_string writes %s, required %s (x, infix, y with the given precision%s)' % (s.t, want, ', inside prefix / suffix' if nparam == 5 else ''))
+    if 3 not in seen:
+        R.bad('X1-axis-order', q + '#x-infix-y', COORD, 'append_to_string(s, infix, precision) not found')
+    if 5 not in seen:
+        R.bad('X1-axis-order', q + '#prefix-body-suffix', COORD, 'append_to_string(s, prefix, infix, suffix, precision) not found')
+
+
+def _d2s(fr, nid, n, args):
+    vals = [fr.ev(a) for a in args]
+    if len(vals) != 3 or not isinstance(vals[0], Str):
+        fr.unknown(nid, 'double2string call')
+    vals[0].t.append(('num', vals[1], vals[2]))
+    return None
+
+
+def _decide_guard(fb, R, fn, target, sym_decl, dom, want, rule, key, what, extra=()):
+    """`target` executes exactly in the worlds where want(world) holds; the guards may mention only the symbol `n` (sym_decl)."""
+    rel = [(c, s, b) for (c, s, b) in guards_of(fn, target) if fn.blocks[b].get('cond') == c
+           and any(local_or_param(fn, x) == sym_decl for x in fn.subtree(c) if fn.nodes[x].get('k') == 'var')]
+
+    def atoms(f, n):
+        if n.get('k') == 'var' and n.get('d') == sym_decl:
+            return ('n', dom)
+        return None
+    try:
+        progs = [(OT.compile_expression(fb, fn, c, atoms), s) for (c, s, _b) in rel]
+    except OT.Inexact as e:
+        R.broken('%s: guard of %s is not comparison-only: %s' % (fn.full, fn.expr(target)[:40], e))
+        return None
+    consts = {0} | set(extra)
+    for p, _s in progs:
+        consts |= set(p.consts)
+    for c in list(consts):
+        consts |= {c - 1, c + 1} if dom[0] <= c - 1 and c + 1 <= dom[1] else set()
+    bad = None
+    nw = 0
+    for w in OT.worlds({'n': dom}, consts):
+        nw += 1
+        reach = all(OT.run(p, w).as_bool() == bool(s) for (p, s) in progs)
+        if reach != bool(want(w)) and bad is None:
+            bad = (w, reach)
+    R.check(bad is None, rule, key, fn.loc(rel[0][0]) if rel else fn.loc(target),
+            '%s: for %s the guarded operation is %s' % (what, bad[0].witness() if bad else '', 'executed' if bad and bad[1] else 'not executed'),
+            detail='guards %s decided over %d order types' % ([fn.expr(c) for (c, _s, _b) in rel], nw))
+    return rel
 
 
 # ================================================================================================ hex, snprintf
@@ -2336,8 +2040,8 @@ def trim_rules(fb, R):
 def backend_rules(fb, R):
     accessor_rules(fb, R)
     wkb_rules(fb, R)
-    reset_rules(fb, R)
     text_rules(fb, R)
+    coordinates_rules(fb, R)
     hex_rules(fb, R)
     snprintf_rules(fb, R)
     trim_rules(fb, R)
@@ -2370,15 +2074,13 @@ def run(ctx):
     R.expect('D2-reverse-iterators', 2)
     R.expect('G1-degenerate-threshold', 6)                # 3 thresholds + 3 "rejecting edge throws"
     R.expect('P1-checked-accessors', 6)                   # 2 projections, 2 Coordinates ctors, lon, lat
-    R.expect('X1-axis-order', 6)                          # 4 WKB encoders + 2 append_to_string overloads
-    R.expect('B1-backpatch-offset-pairing', 6)            # the 6 WKB levels
-    R.expect('B2-backpatch-counter', 6)
-    R.expect('B3-nested-slots-distinct', 2)
-    R.expect('B4-set_size-patches-uint32', 3)
-    R.expect('B5-header-layout', 8)                       # layout, enum table, 5 users, polygon ring count
-    R.expect('B6-start-resets-buffer', 9)                 # 3 back ends x 3 top level starts
-    R.expect('B7-patch-before-handover', 7)               # 3 finishes + 4 hex/binary returns
-    R.expect('S1-text-nesting-grammar', 10)               # 2 formats x (4 geometries + precision member)
+    R.expect('X1-axis-order', 6)                          # 4 WKB geometry kinds + 2 append_to_string overloads
+    R.expect('B1-wkb-counts-match-elements', 4)           # point, linestring, polygon, multipolygon
+    R.expect('B4-set_size-range-guard', 2)
+    R.expect('B5-header-layout', 4)
+    R.expect('B6-start-resets-buffer', 9)                 # 3 back ends x 3 geometry kinds that have a start method
+    R.expect('B7-hex-iff-requested', 4)
+    R.expect('S1-text-nesting-grammar', 16)               # 2 formats x 4 geometry kinds x (grammar, precision member)
     R.expect('H1-hex-encoding', 1)
     R.expect('N1-snprintf-length-bounded', 2)
     R.expect('N2-zero-trim-needs-fraction', 1)
@@ -2396,6 +2098,6 @@ SELFTESTS = [(r, 'c17_geom.cpp', _st_factory) for r in (
     'E1-count-equals-emits', 'E2-emits-current-element', 'E3-skip-only-consecutive-duplicates', 'E4-first-element-never-skipped',
     'W1-wrapper-forwards', 'T1-create-protocol',
     'D1-direction-and-uniqueness-dispatch', 'D2-reverse-iterators', 'G1-degenerate-threshold')] + [(r, 'c17_geom.cpp', _st_backend) for r in (
-        'P1-checked-accessors', 'X1-axis-order', 'B1-backpatch-offset-pairing', 'B2-backpatch-counter', 'B3-nested-slots-distinct',
-        'B4-set_size-patches-uint32', 'B5-header-layout', 'B6-start-resets-buffer', 'B7-patch-before-handover', 'S1-text-nesting-grammar',
+        'P1-checked-accessors', 'X1-axis-order', 'B1-wkb-counts-match-elements', 'B4-set_size-range-guard', 'B5-header-layout',
+        'B6-start-resets-buffer', 'B7-hex-iff-requested', 'S1-text-nesting-grammar',
         'H1-hex-encoding', 'N1-snprintf-length-bounded', 'N2-zero-trim-needs-fraction')]
